@@ -8,9 +8,17 @@ the weight of a rule part is frozen once it was built, and that the retry on the
 path with merged slashes happens only for maps that merge slashes.
 
 Conditions are compared through canonical atoms (wzsa.guards.canon) with local
-flags / aliases replaced by what they stand for, and a Weighting / RulePart
-construction is followed one level into a helper that merely builds the object,
-so that neutral restructurings of the matcher and the rule parser stay silent.
+flags / aliases replaced by what they stand for.  Slots are found by role and
+values are followed rather than statement shapes matched: which exception
+*value* leaves the NoMatch handler is decided path by path (a raise per branch,
+an exception selected into a local and raised once, a conditional expression,
+a private helper that returns or raises it all mean the same); a helper called
+for one candidate rule is executed as part of the rule loop's truth table; a
+loop left through `break` is followed to the `return` behind it; a Weighting /
+RulePart construction is followed into a helper that only hands its parameters
+on; the traversal of update() is decided on the set of states it feeds itself
+with (recursion or work list).  Neutral restructurings of the matcher, the
+adapter and the rule parser therefore stay silent (_c03_helpers.py).
 """
 
 from __future__ import annotations
@@ -25,11 +33,12 @@ from ..dataflow import ReachingDefs
 from ..fold import Folder, RegexConst, Unfoldable, matches_const
 from ..loader import AnalysisError, ClassInfo, FuncInfo, dotted, norm, walk_no_nested
 from ..report import Ctx
+from ._c03_helpers import HelperResolver, StateFlow, Walker, bind_call, flat, is_opaque, subst, truthy_polarity
 
 LEVEL_TEXT = (
     "Static decision of structural clauses of C03 on /repo's current source: (R3.1) priority order - in the matcher's "
     "recursive search the static transition is tried, and its result returned, before the loop over the dynamic "
-    "transitions; StateMachineMatcher.update sorts every state's dynamic transitions ascending by the rule part's weight "
+    "transitions, which visits State.dynamic in list order; StateMachineMatcher.update sorts every state's dynamic transitions ascending by the rule part's weight "
     "(stable list sort, every state visited); MapAdapter.match calls Map.update before the matcher on every path, Map.update "
     "reaches the matcher's update whenever _remap is set and Map.add sets _remap after adding; the converters' class-level "
     "weights, resolved through the MRO, satisfy int/float < string/default < path; the Weighting of a part counts its literal "
@@ -38,12 +47,16 @@ LEVEL_TEXT = (
     "(and websocket_mismatch set) only for rules that pass the same path-admission tests that guard `return rule, values`, an "
     "admitted rule that is discarded only because of its methods is recorded, and sibling loops agree; (R3.3) in "
     "MapAdapter.match MethodNotAllowed is raised iff NoMatch.have_match_for is non-empty, with exactly that set, NotFound "
-    "only on the remaining path, and the matcher hands NoMatch the one set its loops update; (R3.4) a converter whose "
+    "only on the remaining path - decided on the exception value that leaves the handler on every path under both valuations "
+    "of `have_match_for is empty` (raised per branch, selected first and raised once, conditional expression, private helper "
+    "returning or raising it; the same exceptions must not be raised where match() gets without a NoMatch) - and the matcher "
+    "hands NoMatch the one set its loops update; (R3.4) a converter whose "
     "to_python raises ValidationError must not end the whole match: the handler around the to_python call has to resume "
     "the search; (R3.5) a list stored into a Weighting / RulePart is never mutated afterwards (it is rebound to a fresh "
     "list first), so parts never share or lose their weights; (R3.6) in StateMachineMatcher.match the path with repeated "
     "slashes merged - and hence the retry of the search on it, its slash redirect and its 405 bookkeeping - is used only on "
-    "paths on which the map-level `self.merge_slashes` is true. Not decided: that the compiled per-part regular "
+    "paths on which the map-level `self.merge_slashes` is true (a statement that can also run with the flag off - a handler shared "
+    "by both attempts - may see the merged path only through definitions that are executed under the flag). Not decided: that the compiled per-part regular "
     "expressions plus backtracking accept exactly the language the rule grammar denotes (regex / state-machine "
     "semantics, including under which conditions _parse_rule augments a final part's regex with the optional-slash suffix), "
     "and the relative order of parts whose literal decoration differs *and* whose converters differ."
@@ -60,12 +73,15 @@ ASSUMPTIONS = [
     "condition atoms of a rule loop are treated as independent booleans; infeasible combinations only add rows in which short-circuit evaluation never looks at the dependent atom",
     "the request-dependent atoms of a rule loop are those mentioning a parameter of StateMachineMatcher.match (method, websocket)",
     "a local flag / alias is replaced by its defining expression only when that is its single reaching definition, the expression is pure (names, attributes, constants, comparisons, and/or/not) and none of its names is rebound in between",
-    "a helper is taken for a constructor call only if its body is nothing but `return Weighting(...)` / `return RulePart(...)` over its parameters",
+    "a helper is taken to construct a Weighting / RulePart for its caller only if it is straight-line code that neither rebinds nor mutates its parameters; every construction in it then counts as one over the call's arguments",
+    "a helper called for one candidate rule (closure of match(), method through self, module function) is executed as part of the rule loop only if it has no loop / try / with; anything else is exit 2",
+    "R3.3: along a path through the NoMatch handler the attributes of the caught exception keep their values (no assignment to them in the handler: checked); a condition that mentions have_match_for in a form whose meaning is not 'is it empty' is exit 2",
+    "the traversal in StateMachineMatcher.update is judged by the successor states it feeds itself with; conditions under which it skips a successor are not examined",
     "`self.merge_slashes` of the matcher is the map-level setting (it is not assigned inside match(); checked)",
 ]
 
 MATCHER = "routing.matcher.StateMachineMatcher"
-FRESH_CALLS = ("list",)
+FRESH_CALLS = ("list", "sorted")
 
 
 # ----------------------------------------------------------------------
@@ -89,38 +105,6 @@ def _enclosing_func(node: ast.AST) -> ast.AST | None:
     return astq.enclosing(node, (ast.FunctionDef, ast.AsyncFunctionDef, ast.Lambda))
 
 
-def _mirror(op: ast.cmpop) -> type:
-    return {ast.Gt: ast.Lt, ast.Lt: ast.Gt, ast.GtE: ast.LtE, ast.LtE: ast.GtE}.get(type(op), type(op))
-
-
-def truthy_polarity(atom: ast.AST, target: str) -> bool | None:
-    """True: the atom is true exactly when `target` is truthy (non-empty / set);
-    False: exactly when it is falsy; None: the atom does not decide it."""
-    txt = norm(atom)
-    if txt in (target, f"bool({target})", f"len({target})"):
-        return True
-    cp = astq.cmp_parts(atom)
-    if cp is None:
-        return None
-    left, op, right = cp
-    for a, b, flip in ((left, right, False), (right, left, True)):
-        at = norm(a)
-        if not isinstance(b, ast.Constant):
-            continue
-        if at == target and isinstance(b.value, bool):
-            if isinstance(op, (ast.Is, ast.Eq)):
-                return b.value
-            if isinstance(op, (ast.IsNot, ast.NotEq)):
-                return not b.value
-        if at == f"len({target})" and isinstance(b.value, int) and not isinstance(b.value, bool):
-            o = _mirror(op) if flip else type(op)
-            if (o, b.value) in ((ast.Gt, 0), (ast.NotEq, 0), (ast.GtE, 1)):
-                return True
-            if (o, b.value) in ((ast.Eq, 0), (ast.Lt, 1), (ast.LtE, 0)):
-                return False
-    return None
-
-
 def _polar_edges(cfg: CFG, target: str) -> tuple[list[tuple[Node, str]], list[tuple[Node, str]]]:
     """(edges taken when target is truthy, edges taken when it is falsy) over all test atoms that decide it."""
     yes: list[tuple[Node, str]] = []
@@ -137,40 +121,90 @@ def _polar_edges(cfg: CFG, target: str) -> tuple[list[tuple[Node, str]], list[tu
 
 
 def _is_fresh_list(e: ast.AST | None) -> bool:
+    """evaluating e creates a new list object."""
     if isinstance(e, (ast.List, ast.ListComp)):
         return True
     if isinstance(e, ast.Call) and isinstance(e.func, ast.Name) and e.func.id in FRESH_CALLS:
         return True
+    if isinstance(e, ast.Call) and isinstance(e.func, ast.Attribute) and e.func.attr == "copy" and not e.args:
+        return True
     if isinstance(e, ast.Subscript) and isinstance(e.slice, ast.Slice):
         return True  # a slice of a list is a new list
+    if isinstance(e, ast.BinOp) and isinstance(e.op, (ast.Add, ast.Mult)):
+        # list + list / list * n build a new list (an operand that is visibly a list tells it is not str / tuple arithmetic)
+        return any(isinstance(x, (ast.List, ast.ListComp)) or (isinstance(x, ast.Call) and astq.is_name(x.func, "list")) for x in (e.left, e.right))
     return False
 
 
+def _returned_by(hr: HelperResolver | None, v: ast.AST | None) -> ast.AST | None:
+    """when v is a call of a private helper that does nothing but `return <expression>` without using its parameters,
+    that expression: every call evaluates it anew (`def _fresh(): return "", True, [], []`)."""
+    if hr is None or not isinstance(v, ast.Call):
+        return v
+    r = hr.resolve(v)
+    if r is None:
+        return v
+    fn = r[0]
+    body = [st for st in fn.body if not (isinstance(st, ast.Expr) and isinstance(st.value, ast.Constant))]  # type: ignore[attr-defined]
+    a = fn.args  # type: ignore[attr-defined]
+    params = {x.arg for x in [*a.posonlyargs, *a.args, *a.kwonlyargs]}
+    if len(body) == 1 and isinstance(body[0], ast.Return) and body[0].value is not None and not (astq.names_in(body[0].value) & params):
+        return body[0].value
+    return v
+
+
+def _bindings(fn: ast.AST, hr: HelperResolver | None = None) -> list[tuple[ast.AST, str, ast.AST | None]]:
+    """(statement, local name, bound value) for the plain assignments in fn; tuple assignments are taken apart
+    element by element (`a, b = [], []`, also when the tuple comes out of a one-expression helper), a value that cannot
+    be attributed to the name is None."""
+    out: list[tuple[ast.AST, str, ast.AST | None]] = []
+
+    def one(st: ast.AST, tg: ast.AST, v: ast.AST | None) -> None:
+        v = _returned_by(hr, v)
+        if isinstance(tg, ast.Name):
+            out.append((st, tg.id, v))
+        elif isinstance(tg, (ast.Tuple, ast.List)):
+            same = isinstance(v, (ast.Tuple, ast.List)) and len(v.elts) == len(tg.elts) and not any(isinstance(x, ast.Starred) for x in [*v.elts, *tg.elts])
+            for i, e in enumerate(tg.elts):
+                one(st, e.value if isinstance(e, ast.Starred) else e, v.elts[i] if same else None)  # type: ignore[union-attr]
+
+    for st in walk_no_nested(fn):
+        if isinstance(st, ast.Assign):
+            for tg in st.targets:
+                one(st, tg, st.value)
+        elif isinstance(st, ast.AnnAssign) and st.value is not None:
+            one(st, st.target, st.value)
+        elif isinstance(st, ast.NamedExpr):
+            one(st, st.target, st.value)
+    return out
+
+
+Mapping = t.Mapping[str, t.Union[str, ast.AST]]
+
+
 class _Rename(ast.NodeTransformer):
-    def __init__(self, mapping: dict[str, str]):
+    """replaces local names: by another name (the loop variable becomes `$r`) or by an expression (a helper's parameter
+    becomes the argument it was called with)."""
+
+    def __init__(self, mapping: Mapping):
         self.mapping = mapping
 
-    def visit_Name(self, n: ast.Name) -> ast.AST:
+    def visit_Name(self, n: ast.Name) -> ast.AST:  # noqa: N802
         if n.id in self.mapping:
-            return ast.copy_location(ast.Name(id=self.mapping[n.id], ctx=n.ctx), n)
+            v = self.mapping[n.id]
+            return ast.copy_location(ast.Name(id=v, ctx=n.ctx), n) if isinstance(v, str) else v
         return n
 
 
-def _text(e: ast.AST, mapping: dict[str, str]) -> str:
+def _text(e: ast.AST, mapping: Mapping) -> str:
     # re-parse instead of deepcopy: the loader hangs `_parent` links on every node
     fresh = ast.parse(ast.unparse(e), mode="eval").body
     return norm(_Rename(mapping).visit(fresh))
 
 
-def _renamed(e: ast.AST, mapping: dict[str, str]) -> ast.AST:
+def _renamed(e: ast.AST, mapping: Mapping) -> ast.AST:
     # re-parse instead of deepcopy: the loader hangs `_parent` links on every node
     return _Rename(mapping).visit(ast.parse(ast.unparse(e), mode="eval").body)
-
-
-def canon_atom(e: ast.AST, mapping: dict[str, str]) -> tuple[str, bool]:
-    """(canonical key, polarity): the atom is true iff key is `polarity` (guards.canon after renaming the loop variable):
-    `a != b` and `b == a`, `x is not None` and `not (x is None)`, `a > b` and `b < a` share one key."""
-    return guards.canon(_renamed(e, mapping))
 
 
 _PURE = (ast.Name, ast.Attribute, ast.Constant, ast.Compare, ast.BoolOp, ast.UnaryOp, ast.Subscript, ast.Load, ast.cmpop, ast.boolop, ast.unaryop, ast.expr_context)
@@ -241,6 +275,61 @@ def _eval(e: ast.AST, truth: t.Callable[[ast.AST], bool]) -> bool:
 # slots of the matcher
 
 
+def _element_predicate(pred: ast.AST) -> tuple[str, ast.AST] | None:
+    """(parameter, condition over it) for a one-argument predicate: a lambda, `attrgetter("name")`."""
+    if isinstance(pred, ast.Lambda) and len(pred.args.args) == 1 and not pred.args.vararg and not pred.args.kwarg:
+        return pred.args.args[0].arg, pred.body
+    if isinstance(pred, ast.Call) and (dotted(pred.func) or "").rsplit(".", 1)[-1] == "attrgetter" and len(pred.args) == 1 and isinstance(astq.const_str(pred.args[0]), str) and astq.const_str(pred.args[0]).isidentifier():
+        return "element", ast.Attribute(value=ast.Name(id="element", ctx=ast.Load()), attr=astq.const_str(pred.args[0]), ctx=ast.Load())
+    return None
+
+
+def _rules_iteration(e: ast.AST, F: ast.AST | None, depth: int = 0) -> tuple[ast.AST, list[tuple[str, ast.AST, bool]]] | None:
+    """when e iterates the candidate rules of a state: (the `<state>.rules` expression, the conditions an element has to
+    meet to be iterated at all as (parameter, condition, required truth)).  `state.rules`, a local standing for it,
+    `filter(pred, ...)` / `filterfalse(pred, ...)`, `(r for r in ... if cond)`, order-keeping wrappers."""
+    if depth > 4:
+        return None
+    if isinstance(e, ast.Attribute) and e.attr == "rules":
+        return e, []
+    if isinstance(e, ast.Name) and F is not None:  # `candidates = state.rules; for rule in candidates`
+        vals = [v for _, v in astq.assigns_to(F, e.id)]
+        if len(vals) == 1 and vals[0] is not None:
+            return _rules_iteration(vals[0], F, depth + 1)
+        if vals and all(isinstance(v, ast.Attribute) and v.attr == "rules" for v in vals):
+            return vals[0], []  # type: ignore[return-value]
+        return None
+    empty = lambda x: (isinstance(x, (ast.List, ast.Tuple)) and not x.elts) or (isinstance(x, ast.Call) and isinstance(x.func, ast.Name) and x.func.id in ("list", "tuple") and not x.args)  # noqa: E731
+    if isinstance(e, ast.IfExp):  # `<state>.rules if <there is such a state> else []`: nothing is iterated on the other arm
+        arms = [a for a in (e.body, e.orelse) if not empty(a)]
+        its = [_rules_iteration(a, F, depth + 1) for a in arms]
+        if arms and all(i is not None for i in its) and len({norm(i[0]) for i in its if i}) == 1 and all(not i[1] for i in its if i):
+            return its[0]
+        return None
+    if isinstance(e, ast.BoolOp) and isinstance(e.op, ast.Or) and len(e.values) == 2 and empty(e.values[1]):
+        return _rules_iteration(e.values[0], F, depth + 1)
+    if isinstance(e, ast.Call):
+        nm = (dotted(e.func) or "").rsplit(".", 1)[-1]
+        if nm in ("filter", "filterfalse") and len(e.args) == 2 and not e.keywords:
+            inner = _rules_iteration(e.args[1], F, depth + 1)
+            if inner is None:
+                return None
+            pr = _element_predicate(e.args[0])
+            if pr is None:
+                raise AnalysisError(f"rule loop over `{norm(e)[:60]}`: cannot read the filter predicate")
+            return inner[0], inner[1] + [(pr[0], pr[1], nm == "filter")]
+        if nm in ("list", "tuple", "iter") and len(e.args) == 1 and not e.keywords:
+            return _rules_iteration(e.args[0], F, depth + 1)
+        return None
+    if isinstance(e, (ast.GeneratorExp, ast.ListComp)) and len(e.generators) == 1 and isinstance(e.generators[0].target, ast.Name) and astq.is_name(e.elt, e.generators[0].target.id):
+        g = e.generators[0]
+        inner = _rules_iteration(g.iter, F, depth + 1)
+        if inner is None:
+            return None
+        return inner[0], inner[1] + [(g.target.id, c, True) for c in g.ifs]  # type: ignore[union-attr]
+    return None
+
+
 class _Matcher:
     def __init__(self, ctx: Ctx):
         repo = ctx.repo
@@ -269,7 +358,7 @@ class _Matcher:
         nm_calls = [c for c in astq.calls(self.match.node) if _last(dotted(c.func)) == "NoMatch"]
         self.nomatch_calls = nm_calls
         # loops over candidate rules: in the search function or in any helper nested in match()
-        self.rule_loops = [n for n in ast.walk(self.match.node) if isinstance(n, ast.For) and isinstance(n.iter, ast.Attribute) and n.iter.attr == "rules"]
+        self.rule_loops = [n for n in ast.walk(self.match.node) if isinstance(n, ast.For) and _rules_iteration(n.iter, _enclosing_func(n)) is not None]
         self.loop_weight: dict[int, int] = {id(n): 1 for n in self.rule_loops}
         # ... or over a parameter of such a helper that every call site fills with `<state>.rules`
         for n in ast.walk(self.match.node):
@@ -287,23 +376,23 @@ class _Matcher:
             if sites and all(isinstance(a, ast.Attribute) and a.attr == "rules" for a in filled):
                 self.rule_loops.append(n)
                 self.loop_weight[id(n)] = len(sites)
+        # H: the set that receives `<rule>.methods` somewhere in match() (in a loop, or in a helper the loops call);
+        # W: the flag that is handed to NoMatch next to it
         hs: list[str] = []
-        ws: list[str] = []
-        for lp in self.rule_loops:
-            for st in lp.body:
-                for x in ast.walk(st):
-                    if isinstance(x, ast.Call) and isinstance(x.func, ast.Attribute) and isinstance(x.func.value, ast.Name) and x.func.attr in ("update", "add") and any(
-                        isinstance(a, ast.Attribute) and a.attr == "methods" for arg in x.args for a in ast.walk(arg)
-                    ):
-                        hs.append(x.func.value.id)
-                    elif isinstance(x, ast.AugAssign) and isinstance(x.target, ast.Name) and any(isinstance(a, ast.Attribute) and a.attr == "methods" for a in ast.walk(x.value)):
-                        hs.append(x.target.id)
-                    elif isinstance(x, ast.Assign) and len(x.targets) == 1 and isinstance(x.targets[0], ast.Name) and isinstance(x.value, ast.Constant) and x.value.value is True:
-                        ws.append(x.targets[0].id)
+        for x in ast.walk(self.match.node):
+            takes_methods = lambda args: any(isinstance(a, ast.Attribute) and a.attr == "methods" for arg in args for a in ast.walk(arg))  # noqa: E731
+            if isinstance(x, ast.Call) and isinstance(x.func, ast.Attribute) and isinstance(x.func.value, ast.Name) and x.func.attr in ("update", "add") and takes_methods(x.args):
+                hs.append(x.func.value.id)
+            elif isinstance(x, ast.AugAssign) and isinstance(x.target, ast.Name) and takes_methods([x.value]):
+                hs.append(x.target.id)
         if not hs:
             hs = [c.args[0].id for c in nm_calls if c.args and isinstance(c.args[0], ast.Name)]
+        ws = [a.id for a in (astq.arg_or_kw(c, 1, "websocket_mismatch") for c in nm_calls) if isinstance(a, ast.Name)]
         if not ws:
-            ws = [c.args[1].id for c in nm_calls if len(c.args) > 1 and isinstance(c.args[1], ast.Name)]
+            for lp in self.rule_loops:
+                for x in ast.walk(lp):
+                    if isinstance(x, ast.Assign) and len(x.targets) == 1 and isinstance(x.targets[0], ast.Name) and isinstance(x.value, ast.Constant) and x.value.value is True:
+                        ws.append(x.targets[0].id)
         if len(set(hs)) > 1:
             raise AnalysisError(f"{self.match.fq}: the rule loops record methods into several sets: {sorted(set(hs))}")
         self.H: str | None = hs[0] if hs else None
@@ -332,31 +421,170 @@ def _values_of(fn: ast.AST, e: ast.AST) -> list[ast.AST]:
     return [e]
 
 
-def _bound_name(call: ast.Call) -> str | None:
-    p = astq.parent(call)
+def _bound_name(call: ast.Call) -> tuple[str | None, ast.AST | None]:
+    """(the local the call's result is bound to - directly, or as an arm of a conditional expression -, the construct
+    that consumes the result when it is not a binding)."""
+    cur: ast.AST = call
+    p = astq.parent(cur)
+    while isinstance(p, ast.IfExp) and cur is not p.test or (isinstance(p, ast.Call) and (dotted(p.func) or "").endswith("cast") and len(p.args) == 2 and p.args[1] is cur):
+        cur, p = p, astq.parent(p)  # type: ignore[assignment]
     if isinstance(p, ast.Assign) and len(p.targets) == 1 and isinstance(p.targets[0], ast.Name):
-        return p.targets[0].id
+        return p.targets[0].id, p
     if isinstance(p, ast.AnnAssign) and isinstance(p.target, ast.Name):
-        return p.target.id
+        return p.target.id, p
     if isinstance(p, ast.NamedExpr):
-        return p.target.id
-    return None
+        return p.target.id, p
+    return None, p
+
+
+_ORDER_KEEPING = ("enumerate", "iter", "list", "tuple")
+_ORDER_CHANGING = ("reversed", "sorted", "set", "frozenset")
+
+
+def _dynamic_iteration(e: ast.AST) -> tuple[bool, bool | None]:
+    """(the expression iterates some `<state>.dynamic`, in list order: True / False / None = cannot tell)."""
+    if isinstance(e, ast.Attribute) and e.attr == "dynamic":
+        return True, True
+    if isinstance(e, ast.Call) and isinstance(e.func, ast.Name) and e.args:
+        inner, order = _dynamic_iteration(e.args[0])
+        if inner:
+            if e.func.id in _ORDER_KEEPING:
+                return True, order
+            if e.func.id in _ORDER_CHANGING:
+                return True, False
+            return True, None
+    if isinstance(e, ast.Subscript) and isinstance(e.slice, ast.Slice):
+        inner, order = _dynamic_iteration(e.value)
+        if inner:
+            st = e.slice.step
+            if st is None or (isinstance(st, ast.Constant) and st.value == 1):
+                return True, order if e.slice.lower is None and e.slice.upper is None else None
+            return True, False
+    return False, None
+
+
+def _r31_order_generator(ctx: Ctx, m: _Matcher, first: str) -> bool:
+    """the same ordering when the candidate transitions come out of a generator nested in the search (`yield
+    <static successor>` before the loop over .dynamic that yields) and one loop resumes the search for each of them in
+    the order produced.  True when that shape was found and judged."""
+    fn, cfg, fi = m.search, m.search_cfg, m.match
+    for G in [g for g in walk_no_nested(fn) if isinstance(g, ast.FunctionDef) and any(isinstance(y, ast.Yield) for y in walk_no_nested(g))]:
+        consumers = [lp for lp in walk_no_nested(fn) if isinstance(lp, ast.For) and isinstance(lp.iter, ast.Call) and astq.is_name(lp.iter.func, G.name)]
+        if len(consumers) != 1:
+            continue
+        lp = consumers[0]
+        rec = [c for c in astq.calls(lp, nested=False) if astq.is_name(c.func, fn.name)]
+        a0 = astq.arg_or_kw(rec[0], 0, first) if rec else None
+        if not isinstance(a0, ast.Name):
+            continue
+        if isinstance(lp.target, ast.Tuple) and any(astq.is_name(e, a0.id) for e in lp.target.elts):
+            pos: int | None = next(i for i, e in enumerate(lp.target.elts) if astq.is_name(e, a0.id))
+            width = len(lp.target.elts)
+        elif astq.is_name(lp.target, a0.id):
+            pos, width = None, 0
+        else:
+            continue
+
+        def state_of(y: ast.Yield) -> ast.AST | None:
+            v = y.value
+            if pos is None:
+                return v
+            return v.elts[pos] if isinstance(v, ast.Tuple) and len(v.elts) == width else None
+
+        gcfg = CFG(G)
+        gal = guards.Aliases(gcfg, ReachingDefs(gcfg, [a.arg for a in G.args.args]))
+        yields = [y for y in walk_no_nested(G) if isinstance(y, ast.Yield) and y.value is not None]
+        static_y = []
+        for y in yields:
+            st = state_of(y)
+            for v in (_values_of(G, st) if st is not None else []):
+                k = _sub_of_attr(v, "static")
+                if k is not None and not (isinstance(k, ast.Constant) and k.value == ""):
+                    static_y.append(y)
+                    break
+        dyn: list[tuple[ast.For, ast.AST, bool | None]] = []
+        for l in walk_no_nested(G):
+            if isinstance(l, ast.For) and any(_inside(y, l) for y in yields):
+                hn = gcfg.by_ast.get(id(l), [None])[0]
+                it = gal.expand(l.iter, hn) if hn is not None else l.iter
+                is_dyn, order = _dynamic_iteration(it)
+                if is_dyn:
+                    dyn.append((l, it, order))
+        if not static_y or not dyn:
+            continue
+        n = 0
+        for y in static_y:
+            S = gcfg.node_of(y)
+            for dl, it, order in dyn:
+                D = gcfg.by_ast.get(id(dl), [None])[0]
+                if S is None or D is None:
+                    raise AnalysisError(f"{fi.fq}.{fn.name}.{G.name}: no CFG node for the static / dynamic candidate")
+                n += 1
+                fwd, back = D.id in gcfg.reach(S), S.id in gcfg.reach(D)
+                ctx.ob("R3.1", "static transition is tried before the dynamic transitions", fwd and not back,
+                       f"generator {G.name}: `{norm(y)[:60]}` {'precedes' if fwd else 'does NOT precede'} `for ... in {norm(it)[:40]}`; the loop {'can flow back to it (dynamic first)' if back else 'never flows back to it'}; `for ... in {G.name}()` resumes the search in the order produced",
+                       fi, y, "static attempt precedes dynamic loop")
+        # the consumer stops at the first candidate that leads to a rule
+        C = cfg.node_of(rec[0])
+        H = cfg.by_ast.get(id(lp), [None])[0]
+        v, consumer = _bound_name(rec[0])
+        if C is None or H is None:
+            raise AnalysisError(f"{fi.fq}.{fn.name}: no CFG node for the loop over {G.name}()")
+        if v is None:
+            raise AnalysisError(f"{fi.fq}.{fn.name}: the result of `{norm(rec[0])[:60]}` is not bound to a name; cannot follow it to the test that returns it")
+        tests_v = [tn for tn in cfg.tests() if tn.kind == "test" and v in astq.names_in(tn.ast)]
+        rets = [rn for rn in cfg.nodes if rn.kind == "stmt" and isinstance(rn.ast, ast.Return) and astq.is_name(rn.ast.value, v)]
+        r_before = [rn for rn in rets if rn.id in cfg.reach(C, avoid_nodes=[H])]
+        tested = any(tn is C for tn in tests_v) or H.id not in cfg.reach(C, avoid_nodes=tests_v)
+        ctx.ob("R3.1", "a successful static attempt is returned before any dynamic transition is tried", bool(r_before) and tested,
+               f"`return {v}` reachable from `{norm(rec[0])[:50]}` before the next candidate is taken: {bool(r_before)}; every path to the next candidate tests `{v}`: {tested}",
+               fi, rec[0], "static result returned first")
+        ctx.floor("R3.1", "static-before-dynamic orderings", n, 1)
+        for dl, it, order in dyn:
+            if order is None:
+                raise AnalysisError(f"{fi.fq}.{fn.name}: cannot tell in which order `for ... in {norm(it)[:60]}` visits the dynamic transitions")
+            ctx.ob("R3.1", "the dynamic transitions are tried in the (sorted) order of State.dynamic", order,
+                   f"`for ... in {norm(it)[:70]}` " + ("iterates the list front to back" if order else "does not keep the list order: lighter parts are no longer tried first"),
+                   fi, dl, "dynamic transitions tried in list order")
+        wrapped = lp.iter  # the candidates must be consumed in the order produced
+        if not (isinstance(wrapped, ast.Call) and astq.is_name(wrapped.func, G.name)):
+            raise AnalysisError(f"{fi.fq}.{fn.name}: candidates of {G.name}() are not iterated directly")
+        return True
+    return False
 
 
 def _r31_order(ctx: Ctx, m: _Matcher) -> None:
     fn, cfg, fi = m.search, m.search_cfg, m.match
     rec_calls = [c for c in astq.calls(fn, nested=False) if isinstance(c.func, ast.Name) and c.func.id == fn.name]
-    dyn_loops = [n for n in walk_no_nested(fn) if isinstance(n, ast.For) and isinstance(n.iter, ast.Attribute) and n.iter.attr == "dynamic"]
-    static_calls = []
-    for c in rec_calls:
-        if not c.args:
+    al = guards.Aliases(cfg, ReachingDefs(cfg, [a.arg for a in [*fn.args.posonlyargs, *fn.args.args, *fn.args.kwonlyargs]]))
+    dyn_loops: list[ast.For] = []
+    dyn_iter: dict[int, tuple[ast.AST, bool | None]] = {}
+    for n in walk_no_nested(fn):
+        if not isinstance(n, ast.For):
             continue
-        for v in _values_of(fn, c.args[0]):
+        hn = cfg.by_ast.get(id(n), [None])[0]
+        it = al.expand(n.iter, hn) if hn is not None else n.iter  # `transitions = state.dynamic; for ... in transitions`
+        is_dyn, order = _dynamic_iteration(it)
+        if is_dyn:
+            dyn_loops.append(n)
+            dyn_iter[id(n)] = (it, order)
+    static_calls = []
+    first = ([a.arg for a in [*fn.args.posonlyargs, *fn.args.args]] or [""])[0]
+    for c in rec_calls:
+        a0 = astq.arg_or_kw(c, 0, first)  # the state the search continues in, given by position or by keyword
+        if a0 is None:
+            continue
+        for v in _values_of(fn, a0):
             s = _sub_of_attr(v, "static")
             if s is not None and not (isinstance(s, ast.Constant) and s.value == ""):
                 static_calls.append(c)
                 break
-    dyn_calls = [c for c in rec_calls if any(_inside(c, l) for l in dyn_loops)]
+    # the search is resumed for a dynamic transition: directly, or by a closure of match() that runs the search
+    resuming = {n.name for n in ast.walk(fi.node) if isinstance(n, (ast.FunctionDef, ast.AsyncFunctionDef)) and n is not fn
+                and any(isinstance(k.func, ast.Name) and k.func.id == fn.name for k in astq.calls(n, nested=False))}
+    dyn_calls = [c for c in astq.calls(fn, nested=False) if isinstance(c.func, ast.Name) and (c.func.id == fn.name or c.func.id in resuming) and any(_inside(c, l) for l in dyn_loops)]
+    if (not static_calls or not dyn_loops or not dyn_calls) and _r31_order_generator(ctx, m, first):
+        return
     if not static_calls or not dyn_loops or not dyn_calls:
         raise AnalysisError(
             f"{fi.fq}.{fn.name}: cannot find the static attempt ({len(static_calls)}), the loop over .dynamic ({len(dyn_loops)}) "
@@ -377,11 +605,13 @@ def _r31_order(ctx: Ctx, m: _Matcher) -> None:
                 f"`{norm(sc)}` {'reaches' if fwd else 'does NOT reach'} `for ... in {norm(dl.iter)}`; the loop {'can flow back into the static attempt (dynamic first)' if back else 'never flows back into it'}",
                 fi, sc, "static attempt precedes dynamic loop",
             )
-            v = _bound_name(sc)
+            v, consumer = _bound_name(sc)
             if v is None:
-                ctx.ob("R3.1", "a successful static attempt is returned before any dynamic transition is tried", False,
-                       f"the result of `{norm(sc)}` is not bound to a name that is tested and returned", fi, sc, "static result returned first")
-                continue
+                if isinstance(consumer, ast.Return):
+                    ctx.ob("R3.1", "a successful static attempt is returned before any dynamic transition is tried", False,
+                           f"the result of `{norm(sc)}` is returned whatever it is: after a failed static attempt the dynamic transitions are never tried", fi, sc, "static result returned first")
+                    continue
+                raise AnalysisError(f"{fi.fq}.{fn.name}: the result of the static attempt `{norm(sc)[:60]}` is consumed by `{norm(consumer)[:60] if consumer is not None else '?'}`; cannot follow it to the test that returns it")
             tests_v = [tn for tn in cfg.tests() if tn.kind == "test" and v in astq.names_in(tn.ast)]
             rets = [rn for rn in cfg.nodes if rn.kind == "stmt" and isinstance(rn.ast, ast.Return) and astq.is_name(rn.ast.value, v)]
             r_before = [rn for rn in rets if rn.id in cfg.reach(S, avoid_nodes=[D])]
@@ -392,92 +622,279 @@ def _r31_order(ctx: Ctx, m: _Matcher) -> None:
                 fi, sc, "static result returned first",
             )
     ctx.floor("R3.1", "static-before-dynamic orderings", n, 1)
+    for dl in dyn_loops:
+        it, order = dyn_iter[id(dl)]
+        if order is None:
+            raise AnalysisError(f"{fi.fq}.{fn.name}: cannot tell in which order `for ... in {norm(it)[:60]}` visits the dynamic transitions")
+        ctx.ob("R3.1", "the dynamic transitions are tried in the (sorted) order of State.dynamic", order,
+               f"`for ... in {norm(it)[:70]}` " + ("iterates the list front to back" if order else "does not keep the list order: lighter parts are no longer tried first"),
+               fi, dl, "dynamic transitions tried in list order")
 
 
-def _part_index_in_dynamic(m: _Matcher) -> tuple[int, int]:
-    """(index of the RulePart, length) in the tuples appended to State.dynamic by add()."""
+def _part_index_in_dynamic(ctx: Ctx, m: _Matcher) -> tuple[int, int]:
+    """(index of the RulePart, length) in the tuples appended to State.dynamic by add() - in add() itself or in a private
+    method it calls with the part."""
     fn = m.add.node
-    for c in astq.method_calls(fn, "append"):
-        recv = c.func.value  # type: ignore[attr-defined]
-        if isinstance(recv, ast.Attribute) and recv.attr == "dynamic" and c.args and isinstance(c.args[0], ast.Tuple):
-            elts = c.args[0].elts
-            for i, e in enumerate(elts):
-                if isinstance(e, ast.Name):
-                    for st, _ in astq.assigns_to(fn, e.id):
-                        if isinstance(st, ast.For) and isinstance(st.iter, ast.Attribute) and st.iter.attr == "_parts":
-                            return i, len(elts)
+    hr = HelperResolver(ctx.repo, m.add)
+
+    def iterates_parts(scope: ast.AST, e: ast.AST) -> bool:
+        """e is a local bound by `for e in <rule>._parts`."""
+        return isinstance(e, ast.Name) and any(isinstance(st, ast.For) and isinstance(st.iter, ast.Attribute) and st.iter.attr == "_parts" for st, _ in astq.assigns_to(scope, e.id))
+
+    def search(scope: ast.AST, is_part: t.Callable[[ast.AST], bool]) -> tuple[int, int] | None:
+        for c in astq.method_calls(scope, "append"):
+            recv = c.func.value  # type: ignore[attr-defined]
+            if not (c.args and any(isinstance(rv, ast.Attribute) and rv.attr == "dynamic" for rv in _values_of(scope, recv))):
+                continue
+            for tup in _values_of(scope, c.args[0]):  # the pair, written in place or built into a local first
+                if isinstance(tup, ast.Tuple):
+                    for i, e in enumerate(tup.elts):
+                        if is_part(e):
+                            return i, len(tup.elts)
+        return None
+
+    found = search(fn, lambda e: iterates_parts(fn, e))
+    if found is not None:
+        return found
+    for k in astq.calls(fn, nested=False):
+        r = hr.resolve(k)
+        if r is None:
+            continue
+        bound = bind_call(r[0], k, r[1])
+        if bound is None:
+            continue
+        part_params = {prm for prm, arg in bound.items() if iterates_parts(fn, arg)}
+        if part_params and not any(astq.assigns_to(r[0], prm) for prm in part_params):
+            found = search(r[0], lambda e: isinstance(e, ast.Name) and e.id in part_params)
+            if found is not None:
+                return found
     raise AnalysisError(f"{m.add.fq}: no `<state>.dynamic.append((part, state))` with part iterating over rule._parts")
+
+
+def _key_function(fi: FuncInfo, key: ast.AST | None, repo: t.Any) -> tuple[str, ast.AST] | None:
+    """(parameter, the value it returns as an expression over that parameter) of a sort key given as a lambda or as the
+    name of a private function whose every path returns the same expression (locals and tuple unpacking resolved)."""
+    if isinstance(key, ast.Lambda) and len(key.args.args) == 1:
+        return key.args.args[0].arg, key.body
+    if isinstance(key, ast.Name):
+        fn: ast.AST | None = next((n for n in ast.walk(fi.node) if isinstance(n, ast.FunctionDef) and n.name == key.id), None)
+        if fn is None:
+            fq = repo.resolve(fi.module, key.id, fi.module.local_imports(fi.node))
+            h = repo.try_func(fq) if fq and fq.startswith("werkzeug") else None
+            fn = h.node if h is not None else None
+        if fn is None:
+            for st, v in astq.assigns_to(fi.node, key.id):
+                if isinstance(v, ast.Lambda):
+                    return _key_function(fi, v, repo)
+            return None
+        params = [a.arg for a in fn.args.args]  # type: ignore[attr-defined]
+        if len(params) != 1:
+            return None
+        kcfg = CFG(fn)
+        exits = [x for x in Walker(kcfg, lambda leaf: None).run(kcfg.entry, {})]
+        vals = {norm(x.value) for x in exits if x.kind == "return" and x.value is not None}
+        if len(vals) == 1 and all(x.kind == "return" for x in exits):
+            return params[0], next(x.value for x in exits if x.kind == "return")
+    return None
+
+
+def _state_generator(ctx: Ctx, fi: FuncInfo, F: ast.AST, p: str) -> tuple[ast.AST, str, int, ast.Call] | None:
+    """when `p` is bound by `for p in G(...)` and G is a private generator that yields its state parameter:
+    (G, that parameter, its position among the call's arguments, the call)."""
+    loops = [st for st in walk_no_nested(F) if isinstance(st, ast.For) and astq.is_name(st.target, p)]
+    if len(loops) != 1 or not isinstance(loops[0].iter, ast.Call) or astq.assigns_to(F, p) != [(loops[0], None)]:
+        return None
+    call = loops[0].iter
+    r = HelperResolver(ctx.repo, fi).resolve(call)
+    if r is None:
+        return None
+    G, skip = r
+    params = [a.arg for a in G.args.args][1 if skip else 0:]  # type: ignore[attr-defined]
+    for i, q in enumerate(params):
+        if any(isinstance(y, ast.Yield) and astq.is_name(y.value, q) for y in walk_no_nested(G)) and not astq.assigns_to(G, q):
+            return G, q, i, call
+    return None
 
 
 def _r31_sort(ctx: Ctx, m: _Matcher) -> None:
     fi = m.update
-    idx, width = _part_index_in_dynamic(m)
+    idx, width = _part_index_in_dynamic(ctx, m)
     sorts: list[tuple[ast.Call, ast.AST]] = []  # (call, receiver expr `X.dynamic`)
-    for c in astq.calls(fi.node):
-        if isinstance(c.func, ast.Attribute) and c.func.attr == "sort" and isinstance(c.func.value, ast.Attribute) and c.func.value.attr == "dynamic":
-            sorts.append((c, c.func.value))
+    hr = HelperResolver(ctx.repo, fi)
+    # update() itself and the private functions / methods it hands the work to
+    scopes: list[ast.AST] = [fi.node]
+    for k in astq.calls(fi.node):
+        r = hr.resolve(k)
+        if r is not None and r[0] is not fi.node and not _inside(r[0], fi.node) and all(r[0] is not x for x in scopes):
+            scopes.append(r[0])
+
+    def runs(k: ast.Call, F: ast.AST) -> bool:
+        """k is a call of F: by its plain name, through self / cls / the class."""
+        if isinstance(k.func, ast.Name) and k.func.id == getattr(F, "name", None):
+            return True
+        r = hr.resolve(k)
+        return r is not None and r[0] is F
+
+    for c in [c for sc in scopes for c in astq.calls(sc)]:
+        if isinstance(c.func, ast.Attribute) and c.func.attr == "sort":
+            # `<state>.dynamic.sort(...)`, the list possibly held in a local (`transitions = state.dynamic`)
+            for rv in _values_of(_enclosing_func(c) or fi.node, c.func.value):
+                if isinstance(rv, ast.Attribute) and rv.attr == "dynamic":
+                    sorts.append((c, rv))
+                    break
         elif isinstance(c.func, ast.Name) and c.func.id == "sorted" and c.args and isinstance(c.args[0], ast.Attribute) and c.args[0].attr == "dynamic":
             p = astq.parent(c)
-            if isinstance(p, ast.Assign) and len(p.targets) == 1 and norm(p.targets[0]) == norm(c.args[0]):
-                sorts.append((c, c.args[0]))
+            if isinstance(p, ast.Assign) and len(p.targets) == 1:
+                tg = p.targets[0]
+                if isinstance(tg, ast.Subscript) and isinstance(tg.slice, ast.Slice) and tg.slice.lower is None and tg.slice.upper is None and tg.slice.step is None:
+                    tg = tg.value  # `X.dynamic[:] = sorted(X.dynamic, ...)`
+                if norm(tg) == norm(c.args[0]):
+                    sorts.append((c, c.args[0]))
     ctx.floor("R3.1", "sorts of State.dynamic in update()", len(sorts), 1)
+    ucfg = cfg_of(fi)
+    ual = guards.Aliases(ucfg, ReachingDefs(ucfg, fi.params))
+
+    def is_root(e: ast.AST) -> bool:
+        if norm(e) == "self._root":
+            return True
+        if isinstance(e, ast.Name) and _enclosing_func(e) is fi.node:
+            n = ucfg.node_of(e)
+            return n is not None and norm(ual.expand(e, n)) == "self._root"
+        return False
+
     for c, recv in sorts:
         key = astq.kwarg(c, "key")
         rev = astq.kwarg(c, "reverse")
         asc = rev is None or (isinstance(rev, ast.Constant) and rev.value is False)
         shape = False
-        if isinstance(key, ast.Lambda) and len(key.args.args) == 1:
-            p = key.args.args[0].arg
-            b = key.body
+        kf = _key_function(fi, key, ctx.repo)
+        if kf is None and key is not None:
+            raise AnalysisError(f"{fi.fq}: cannot read the sort key `{norm(key)[:60]}` (expected a lambda or a private one-expression function)")
+        if kf is not None:
+            p, b = kf
             shape = (
                 isinstance(b, ast.Attribute) and b.attr == "weight" and isinstance(b.value, ast.Subscript)
                 and astq.is_name(b.value.value, p) and isinstance(b.value.slice, ast.Constant) and b.value.slice.value in (idx, idx - width)
             )
         ctx.ob(
             "R3.1", "dynamic transitions are sorted ascending by the weight of their rule part", asc and shape,
-            f"`{norm(c)}`: key is element {idx} (the RulePart appended by add()) `.weight`: {shape}; ascending (no reverse): {asc}",
+            f"`{norm(c)}`: key is element {idx} (the RulePart appended by add()) `.weight`: {shape}" + (f" (key function returns `{norm(kf[1])}`)" if kf is not None and not isinstance(key, ast.Lambda) else "") + f"; ascending (no reverse): {asc}",
             fi, c, "dynamic sorted ascending by part weight",
         )
-        # every state is visited: the sorting function recurses into static values and dynamic targets, and starts at the root
+        # every state is visited: the states the traversal feeds itself with include the static and the dynamic
+        # successors of the state being sorted, and it starts at the root - recursive helper or work list alike
         F = _enclosing_func(c)
-        if F is None or not isinstance(F, (ast.FunctionDef, ast.AsyncFunctionDef)):
-            raise AnalysisError(f"{fi.fq}: sort site outside a function")
-        if F is fi.node or not isinstance(recv.value, ast.Name) or recv.value.id not in [a.arg for a in F.args.args]:
-            raise AnalysisError(f"{fi.fq}: the sort is not inside a per-state helper taking the state as parameter (traversal shape not recognised)")
+        if F is None or not isinstance(F, (ast.FunctionDef, ast.AsyncFunctionDef)) or not isinstance(recv.value, ast.Name):
+            raise AnalysisError(f"{fi.fq}: the sorted list is not `<local>.dynamic` inside a function (traversal shape not recognised)")
         p = recv.value.id
-        rec = [k for k in astq.calls(F, nested=False) if isinstance(k.func, ast.Name) and k.func.id == F.name and k.args]
-        into_static = into_dynamic = False
-        for k in rec:
-            loop = astq.enclosing(k, (ast.For,))
-            if loop is None or not isinstance(k.args[0], ast.Name):
-                continue
-            it = norm(loop.iter)
-            tgt = loop.target
-            if it == f"{p}.static.values()" and astq.is_name(tgt, k.args[0].id):
-                into_static = True
-            if it == f"{p}.static.items()" and isinstance(tgt, ast.Tuple) and len(tgt.elts) == 2 and astq.is_name(tgt.elts[1], k.args[0].id):
-                into_static = True
-            if it == f"{p}.dynamic" and isinstance(tgt, ast.Tuple) and len(tgt.elts) == width:
-                others = [e for i, e in enumerate(tgt.elts) if i != idx]
-                if any(astq.is_name(e, k.args[0].id) for e in others):
-                    into_dynamic = True
-        roots = [k for k in astq.calls(fi.node, nested=False) if isinstance(k.func, ast.Name) and k.func.id == F.name and k.args]
-        from_root = any(any(norm(v) == "self._root" for v in _values_of(fi.node, k.args[0])) for k in roots)
+        flow = StateFlow(p, idx, width, is_root, F)
+        fed: set[str] = set()
+        seeds: set[str] = set()
+        how = ""
+        params = [a.arg for a in F.args.args]
+        if F is not fi.node and p in params:
+            pos = params.index(p) - (1 if params and params[0] in ("self", "cls") and p != params[0] else 0)
+            how = f"{F.name} calls itself"
+            for k in astq.calls(F, nested=False):
+                if runs(k, F):
+                    a0 = astq.arg_or_kw(k, pos, p)
+                    if a0 is not None:
+                        fed |= flat(flow.ev(a0, flow.env_at(k, F)))
+                elif isinstance(k.func, ast.Name) and k.func.id == "map" and len(k.args) == 2 and astq.is_name(k.args[0], F.name):
+                    fed |= flat(flow.elems(flow.ev(k.args[1], flow.env_at(k, F))))
+            for k in astq.calls(fi.node, nested=False):
+                if runs(k, F):
+                    a0 = astq.arg_or_kw(k, pos, p)
+                    if a0 is not None:
+                        seeds |= flat(flow.ev(a0, {}))
+        elif (gen := _state_generator(ctx, fi, F, p)) is not None:
+            # `for <p> in <generator>(root)`: the generator yields its state and calls itself for the successors
+            G, q, gpos, site_call = gen
+            how = f"generator {G.name} yields the states"  # type: ignore[attr-defined]
+            gflow = StateFlow(q, idx, width, is_root, G)
+            for k in astq.calls(G, nested=False):
+                if (isinstance(k.func, ast.Name) and k.func.id == G.name) or (isinstance(k.func, ast.Attribute) and astq.is_name(k.func.value, "self") and k.func.attr == G.name):  # type: ignore[attr-defined]
+                    a0 = astq.arg_or_kw(k, gpos, q)
+                    if a0 is not None:
+                        fed |= flat(gflow.ev(a0, gflow.env_at(k, G)))
+            a0 = astq.arg_or_kw(site_call, gpos, q)
+            if a0 is not None:
+                seeds |= flat(flow.ev(a0, {}))
+        else:
+            # work list: the state comes out of a container that the loop refills
+            srcs = [v for _, v in astq.assigns_to(F, p) if v is not None]
+            pops = [v for v in srcs if isinstance(v, ast.Call) and isinstance(v.func, ast.Attribute) and v.func.attr in ("pop", "popleft") and isinstance(v.func.value, ast.Name)]
+            if not srcs or len(pops) != len(srcs) or len({v.func.value.id for v in pops}) != 1:  # type: ignore[attr-defined]
+                raise AnalysisError(f"{fi.fq}: `{p}` is neither the parameter of a per-state helper nor taken from a work list (traversal shape not recognised)")
+            wl = pops[0].func.value.id  # type: ignore[attr-defined]
+            how = f"work list `{wl}`"
+            for st, v in astq.assigns_to(F, wl):
+                if v is None:
+                    continue
+                if astq.enclosing(st, (ast.While, ast.For)) is None:
+                    seeds |= flat(flow.elems(flow.ev(v, {})))
+                else:
+                    fed |= flat(flow.elems(flow.ev(v, flow.env_at(st, F))))
+            for k in astq.calls(F, nested=False):
+                if isinstance(k.func, ast.Attribute) and astq.is_name(k.func.value, wl) and k.args:
+                    tags = None
+                    if k.func.attr in ("append", "appendleft"):
+                        tags = flat(flow.ev(k.args[0], flow.env_at(k, F)))
+                    elif k.func.attr in ("extend", "extendleft"):
+                        tags = flat(flow.elems(flow.ev(k.args[0], flow.env_at(k, F))))
+                    if tags is not None:
+                        if astq.enclosing(k, (ast.While, ast.For)) is None:
+                            seeds |= tags
+                        else:
+                            fed |= tags
+            for x in walk_no_nested(F):
+                if isinstance(x, ast.AugAssign) and astq.is_name(x.target, wl) and isinstance(x.op, ast.Add):
+                    fed |= flat(flow.elems(flow.ev(x.value, flow.env_at(x, F))))
+        into_static, into_dynamic, from_root = "S" in fed, "D" in fed, "root" in seeds
         ctx.ob(
             "R3.1", "the sort visits every state of the machine", into_static and into_dynamic and from_root,
-            f"{F.name} recurses into {p}.static values: {into_static}, into the targets of {p}.dynamic: {into_dynamic}; started at self._root: {from_root}",
-            fi, F, "sort traversal covers static and dynamic successors from the root",
+            f"{how}: fed with the values of {p}.static: {into_static}, with the targets of {p}.dynamic: {into_dynamic}; started at self._root: {from_root}",
+            fi, F if F is not fi.node else c, "sort traversal covers static and dynamic successors from the root",
         )
+
+
+def _receiver(fi: FuncInfo, call: ast.Call) -> str:
+    """text of the object a method is called on, a local alias of it (`matcher = self._matcher`) looked through."""
+    if not isinstance(call.func, ast.Attribute):
+        return ""
+    recv = call.func.value
+    cfg = cfg_of(fi)
+    al = getattr(fi, "_c03_aliases", None)
+    if al is None:
+        al = guards.Aliases(cfg, ReachingDefs(cfg, fi.params))
+        fi._c03_aliases = al  # type: ignore[attr-defined]
+    n = cfg.node_of(call)
+    return norm(al.expand(recv, n)) if n is not None and _enclosing_func(call) is fi.node else norm(recv)
+
+
+def _method_on(attr: str, receiver: str) -> t.Callable[[FuncInfo, ast.Call], bool]:
+    return lambda fi, k: isinstance(k.func, ast.Attribute) and k.func.attr == attr and _receiver(fi, k) == receiver
+
+
+def _always_calls(ctx: Ctx, cls: ClassInfo | None, call: ast.Call, what: t.Callable[[FuncInfo, ast.Call], bool], depth: int = 0) -> bool:
+    """`call` is a call of a method through self in whose body every path to the normal exit passes a call that
+    satisfies `what` (directly or, again, through such a method)."""
+    if cls is None or depth > 2 or not (isinstance(call.func, ast.Attribute) and astq.is_name(call.func.value, "self")):
+        return False
+    _, h = ctx.repo.lookup(cls, call.func.attr)
+    if not isinstance(h, FuncInfo):
+        return False
+    hc = cfg_of(h)
+    through = [hc.node_of(k) for k in astq.calls(h.node, nested=False) if what(h, k) or _always_calls(ctx, cls, k, what, depth + 1)]
+    through = [x for x in through if x is not None]
+    return bool(through) and hc.all_paths_pass(hc.entry, [hc.exit], through)
 
 
 def _r31_update_calls(ctx: Ctx) -> None:
     repo = ctx.repo
-    ad = repo.func("routing.map.MapAdapter.match")
-    cfg = cfg_of(ad)
-    ups = [c for c in astq.method_calls(ad.node, "update", nested=False) if norm(c.func.value) == "self.map" and not c.args]  # type: ignore[attr-defined]
-    ms = [c for c in astq.method_calls(ad.node, "match", nested=False) if norm(c.func.value).endswith("._matcher")]  # type: ignore[attr-defined]
-    if not ms:
-        raise AnalysisError(f"{ad.fq}: no call of <map>._matcher.match")
+    ad, cfg, ms = _adapter_slots(ctx)
+    is_up = _method_on("update", "self.map")
+    ups = [c for c in astq.calls(ad.node, nested=False) if (is_up(ad, c) and not c.args) or _always_calls(ctx, ad.cls, c, is_up)]
     n = 0
     for mc in ms:
         M = cfg.node_of(mc)
@@ -487,7 +904,8 @@ def _r31_update_calls(ctx: Ctx) -> None:
                f"{len(ups)} `self.map.update()` call(s); one dominates `{norm(mc)[:60]}`: {ok}", ad, mc, "map.update dominates matcher.match")
     mu = repo.func("routing.map.Map.update")
     cfg = cfg_of(mu)
-    inner = [c for c in astq.method_calls(mu.node, "update", nested=False) if norm(c.func.value) == "self._matcher"]  # type: ignore[attr-defined]
+    is_sort = _method_on("update", "self._matcher")
+    inner = [c for c in astq.calls(mu.node, nested=False) if is_sort(mu, c) or _always_calls(ctx, mu.cls, c, is_sort)]
     if not inner:
         ctx.ob("R3.1", "Map.update re-sorts the matcher whenever _remap is set", False, "no `self._matcher.update()` call", mu, mu.node, "Map.update reaches matcher.update")
         n += 1
@@ -508,7 +926,8 @@ def _r31_update_calls(ctx: Ctx) -> None:
                 ctx.ob("R3.1", "_remap is cleared only after the matcher was re-sorted", ok, f"`{norm(st)}` dominated by self._matcher.update(): {ok}", mu, st, "remap cleared after sort")
     ma = repo.func("routing.map.Map.add")
     cfg = cfg_of(ma)
-    adds = [c for c in astq.method_calls(ma.node, "add", nested=False) if norm(c.func.value) == "self._matcher"]  # type: ignore[attr-defined]
+    is_add = _method_on("add", "self._matcher")
+    adds = [c for c in astq.calls(ma.node, nested=False) if is_add(ma, c) or _always_calls(ctx, ma.cls, c, is_add)]
     if not adds:
         raise AnalysisError(f"{ma.fq}: no call of self._matcher.add")
     sets = [cfg.node_of(st) for st in walk_no_nested(ma.node) if isinstance(st, ast.Assign) and any(norm(tg) == "self._remap" for tg in st.targets) and isinstance(st.value, ast.Constant) and st.value.value is True]
@@ -522,32 +941,136 @@ def _r31_update_calls(ctx: Ctx) -> None:
     ctx.floor("R3.1", "update call sites", n, 3)
 
 
+_MAPPING_WRAPPERS = ("dict", "ImmutableDict", "MappingProxyType", "OrderedDict", "frozendict")
+
+
+def _table_pairs(ctx: Ctx, folder: Folder, mod: t.Any, e: ast.AST | None, depth: int = 0) -> list[tuple[str, ast.AST]]:
+    """the (key, value expression) pairs a mapping-building expression denotes, in insertion order: dict displays
+    (with `**` spreads), dict(name=V) / dict(pairs) / dict(mapping), dict.fromkeys(keys, V), sequences of pairs,
+    `a | b`, read-only wrappers, module-level names standing for any of these.  Keys are folded to constants; values are
+    kept as expressions (they name classes)."""
+    if e is None or depth > 6:
+        raise AnalysisError("DEFAULT_CONVERTERS: table expression not understood")
+
+    def key_of(k: ast.AST) -> str:
+        try:
+            v = folder.expr(mod, k)
+        except Unfoldable as ex:
+            raise AnalysisError(f"DEFAULT_CONVERTERS: key `{norm(k)}` is not a constant: {ex}")
+        if not isinstance(v, str):
+            raise AnalysisError(f"DEFAULT_CONVERTERS: key `{norm(k)}` folds to {v!r}")
+        return v
+
+    rec = lambda x: _table_pairs(ctx, folder, mod, x, depth + 1)  # noqa: E731
+    if isinstance(e, ast.Dict):
+        out: list[tuple[str, ast.AST]] = []
+        for k, v in zip(e.keys, e.values):
+            out += rec(v) if k is None else [(key_of(k), v)]
+        return out
+    if isinstance(e, ast.Name):
+        vals = mod.assigns.get(e.id)
+        if not vals:
+            raise AnalysisError(f"DEFAULT_CONVERTERS: `{e.id}` is not a module-level table")
+        return rec(vals[-1])
+    if isinstance(e, (ast.Tuple, ast.List)):
+        out = []
+        for x in e.elts:
+            if isinstance(x, ast.Starred):
+                out += rec(x.value)
+            elif isinstance(x, (ast.Tuple, ast.List)) and len(x.elts) == 2:
+                out.append((key_of(x.elts[0]), x.elts[1]))
+            else:
+                raise AnalysisError(f"DEFAULT_CONVERTERS: `{norm(x)[:50]}` is not a (name, class) pair")
+        return out
+    if isinstance(e, ast.BinOp) and isinstance(e.op, ast.BitOr):
+        return rec(e.left) + rec(e.right)
+    if isinstance(e, ast.Call):
+        d = dotted(e.func) or ""
+        if d == "dict.fromkeys" and len(e.args) == 2:
+            try:
+                keys = list(folder.expr(mod, e.args[0]))
+            except Unfoldable as ex:
+                raise AnalysisError(f"DEFAULT_CONVERTERS: keys of `{norm(e)[:50]}` are not constant: {ex}")
+            return [(k, e.args[1]) for k in keys if isinstance(k, str)]
+        if d.rsplit(".", 1)[-1] in _MAPPING_WRAPPERS and len(e.args) <= 1:
+            out = rec(e.args[0]) if e.args else []
+            for kw in e.keywords:
+                out += rec(kw.value) if kw.arg is None else [(kw.arg, kw.value)]
+            return out
+    raise AnalysisError(f"routing.converters.DEFAULT_CONVERTERS: `{norm(e)[:60]}` is not a table the rule can read (dict display / dict(...) / pairs)")
+
+
 def _converter_table(ctx: Ctx) -> tuple[dict[str, ClassInfo], ast.AST]:
     mod = ctx.repo.module("routing.converters")
     vals = mod.assigns.get("DEFAULT_CONVERTERS")
-    if not vals or not isinstance(vals[-1], ast.Dict):
-        raise AnalysisError("routing.converters.DEFAULT_CONVERTERS is not a dict literal")
+    if not vals:
+        raise AnalysisError("routing.converters.DEFAULT_CONVERTERS is not assigned at module level")
     d = vals[-1]
     out: dict[str, ClassInfo] = {}
-    for k, v in zip(d.keys, d.values):
-        ks = astq.const_str(k) if k is not None else None
+    for ks, v in _table_pairs(ctx, Folder(ctx.repo), mod, d):
         dn = dotted(v)
-        if ks is None or dn is None:
-            raise AnalysisError("DEFAULT_CONVERTERS: non-literal entry")
+        if dn is None:
+            raise AnalysisError(f"DEFAULT_CONVERTERS[{ks!r}]: `{norm(v)[:40]}` does not name a class")
         fq = ctx.repo.resolve(mod, dn)
         ci = ctx.repo.try_cls(fq) if fq else None
         if ci is None:
             raise AnalysisError(f"DEFAULT_CONVERTERS[{ks!r}]: class {dn} not found")
-        out[ks] = ci
+        out[ks] = ci  # a later pair with the same key replaces the earlier one, as in a dict
     return out, d
 
 
+def _fold_class_constants(ctx: Ctx, folder: Folder, module: t.Any, e: ast.AST, depth: int = 0) -> t.Any:
+    """fold e, where `Class.attr` stands for the class-level constant of a class of the package (resolved through the
+    MRO): `weight = 2 * BaseConverter.weight`."""
+    if depth > 6:
+        raise Unfoldable("class constants nested too deep")
+    fresh = ast.parse(ast.unparse(e), mode="eval").body
+
+    class T(ast.NodeTransformer):
+        def visit_Attribute(self, n: ast.Attribute) -> ast.AST:  # noqa: N802
+            base = dotted(n.value)
+            fq = ctx.repo.resolve(module, base) if base else None
+            ci = ctx.repo.try_cls(fq) if fq and fq.startswith("werkzeug") else None
+            if ci is not None:
+                owner, what = _class_constant(ctx, ci, n.attr)
+                if owner is not None and isinstance(what, ast.AST):
+                    return ast.Constant(value=_fold_class_constants(ctx, folder, owner.module, what, depth + 1))
+            return self.generic_visit(n)
+
+    return folder.expr(module, ast.fix_missing_locations(T().visit(fresh)))
+
+
+def _class_constant(ctx: Ctx, c: ClassInfo, name: str) -> tuple[ClassInfo | None, ast.AST | None]:
+    """(owner, value expression) of a class-level attribute through the MRO; unlike the loader's table this also sees a
+    class body that binds several attributes at once (`regex, weight = "[^/]+", 100`)."""
+    for k in ctx.repo.mro(c):
+        if not isinstance(k, ClassInfo):
+            continue
+        found: ast.AST | None = None
+        for st in k.node.body:
+            if isinstance(st, ast.Assign):
+                for tg in st.targets:
+                    if astq.is_name(tg, name):
+                        found = st.value
+                    elif isinstance(tg, (ast.Tuple, ast.List)) and isinstance(st.value, (ast.Tuple, ast.List)) and len(tg.elts) == len(st.value.elts):
+                        for t_, v_ in zip(tg.elts, st.value.elts):
+                            if astq.is_name(t_, name):
+                                found = v_
+            elif isinstance(st, ast.AnnAssign) and astq.is_name(st.target, name) and st.value is not None:
+                found = st.value
+        if found is not None:
+            return k, found
+        if name in k.attrs or name in k.methods:
+            return ctx.repo.lookup(c, name)
+    return None, None
+
+
 def _weight_of(ctx: Ctx, folder: Folder, c: ClassInfo) -> tuple[int, str]:
-    owner, what = ctx.repo.lookup(c, "weight")
+    owner, what = _class_constant(ctx, c, "weight")
     if owner is None or not isinstance(what, ast.AST):
         raise AnalysisError(f"{c.fq}: `weight` does not resolve to a class attribute")
     try:
-        v = folder.expr(owner.module, what)
+        v = _fold_class_constants(ctx, folder, owner.module, what)
     except Unfoldable as e:
         raise AnalysisError(f"{owner.fq}.weight is not a constant: {e}")
     if not isinstance(v, (int, float)) or isinstance(v, bool):
@@ -602,58 +1125,60 @@ class _Site(t.NamedTuple):
     via: str | None  # name of the helper the construction was moved into
 
 
-def _ctor_returned(fn: ast.AST) -> ast.Call | None:
-    """fn's body is nothing but `return Ctor(...)` (optionally `v = Ctor(...); return v`, after a docstring)."""
-    body = list(getattr(fn, "body", []))
-    if body and isinstance(body[0], ast.Expr) and isinstance(body[0].value, ast.Constant) and isinstance(body[0].value.value, str):
-        body = body[1:]
-    call: ast.AST | None = None
-    if len(body) == 1 and isinstance(body[0], ast.Return):
-        call = body[0].value
-    elif len(body) == 2 and isinstance(body[1], ast.Return) and isinstance(body[1].value, ast.Name):
-        st = body[0]
-        tg = st.targets[0] if isinstance(st, ast.Assign) and len(st.targets) == 1 else st.target if isinstance(st, ast.AnnAssign) else None
-        if isinstance(tg, ast.Name) and tg.id == body[1].value.id:
-            call = st.value  # type: ignore[union-attr]
-    if isinstance(call, ast.Call) and _last(dotted(call.func)) in CTORS:
-        return call
+def _ctor_name(fn: ast.AST | None, c: ast.Call) -> str | None:
+    """Weighting / RulePart when c constructs one: by the class name, or as `cls(...)` inside a classmethod of that class
+    (an alternative constructor)."""
+    nm = _last(dotted(c.func))
+    if nm in CTORS:
+        return nm
+    owner = astq.parent(fn) if fn is not None else None
+    if nm == "cls" and isinstance(c.func, ast.Name) and isinstance(owner, ast.ClassDef) and owner.name in CTORS and isinstance(fn, (ast.FunctionDef, ast.AsyncFunctionDef)):
+        if any((dotted(d) or "").endswith("classmethod") for d in fn.decorator_list) and fn.args.args and fn.args.args[0].arg == "cls":
+            return owner.name
     return None
 
 
+def _ctor_built(ctx: Ctx, fn: ast.AST) -> list[ast.Call]:
+    """the Weighting / RulePart constructions in a helper that does nothing else with its parameters than hand them on:
+    straight-line code (no loop), no parameter rebound, none mutated through a list method / subscript store.  Each such
+    construction is, for the caller, a construction over the arguments of the call."""
+    if not isinstance(fn, (ast.FunctionDef, ast.AsyncFunctionDef)):
+        return []
+    calls = [c for c in walk_no_nested(fn) if isinstance(c, ast.Call) and _ctor_name(fn, c) is not None]
+    if not calls:
+        return []
+    a = fn.args
+    params = {x.arg for x in [*a.posonlyargs, *a.args, *a.kwonlyargs]}
+    muts = ctx.repo.mutators("list")
+    for x in walk_no_nested(fn):
+        if isinstance(x, (ast.For, ast.AsyncFor, ast.While)):
+            return []
+        if isinstance(x, ast.Name) and isinstance(x.ctx, (ast.Store, ast.Del)) and x.id in params:
+            return []
+        if isinstance(x, ast.Call) and isinstance(x.func, ast.Attribute) and isinstance(x.func.value, ast.Name) and x.func.value.id in params and x.func.attr in muts:
+            return []
+        if isinstance(x, ast.Subscript) and isinstance(x.value, ast.Name) and x.value.id in params and isinstance(x.ctx, (ast.Store, ast.Del)):
+            return []
+        if isinstance(x, (ast.Global, ast.Nonlocal)):
+            return []
+    return calls
+
+
 def _inline(helper: ast.AST, inner: ast.Call, call: ast.Call, skip_first: bool) -> ast.Call | None:
-    """`inner` (the constructor call inside helper) with helper's parameters replaced by the arguments of `call`."""
-    a = helper.args  # type: ignore[attr-defined]
-    if a.vararg or a.kwarg or any(isinstance(x, ast.Starred) for x in call.args) or any(k.arg is None for k in call.keywords):
+    """`inner` (the constructor call inside helper) with helper's parameters replaced by the arguments of `call`; the
+    helper's own locals are renamed so that they cannot be taken for locals of the caller."""
+    bound = bind_call(helper, call, skip_first)
+    if bound is None:
         return None
-    pos = [x.arg for x in [*a.posonlyargs, *a.args]]
-    if skip_first:
-        pos = pos[1:]
-    defaults: dict[str, ast.AST] = {}
-    pa = [*a.posonlyargs, *a.args]
-    for x, d in zip(pa[len(pa) - len(a.defaults):], a.defaults):
-        defaults[x.arg] = d
-    for x, d in zip(a.kwonlyargs, a.kw_defaults):
-        if d is not None:
-            defaults[x.arg] = d
-    if len(call.args) > len(pos):
-        return None
-    bound: dict[str, ast.AST] = dict(zip(pos, call.args))
-    names = set(pos) | {x.arg for x in a.kwonlyargs}
-    for k in call.keywords:
-        if k.arg not in names or k.arg in bound:
-            return None
-        bound[k.arg] = k.value  # type: ignore[index]
-    for nm in names:
-        if nm not in bound:
-            if nm not in defaults:
-                return None
-            bound[nm] = defaults[nm]
+    own = {x.id for x in walk_no_nested(helper) if isinstance(x, ast.Name) and isinstance(x.ctx, ast.Store)} - set(bound)
     fresh = ast.parse(ast.unparse(inner), mode="eval").body
 
     class T(ast.NodeTransformer):
         def visit_Name(self, n: ast.Name) -> ast.AST:  # noqa: N802
             if n.id in bound:
                 return ast.parse(ast.unparse(bound[n.id]), mode="eval").body
+            if n.id in own:
+                return ast.copy_location(ast.Name(id=f"__{getattr(helper, 'name', 'helper')}_{n.id}", ctx=n.ctx), n)
             return n
 
     out = ast.fix_missing_locations(T().visit(fresh))
@@ -662,10 +1187,8 @@ def _inline(helper: ast.AST, inner: ast.Call, call: ast.Call, skip_first: bool) 
 
 def _ctor_sites(ctx: Ctx, fi: FuncInfo) -> list[_Site]:
     """every construction of a Weighting / RulePart in fi: written out, or moved into a helper (function of the module,
-    method of the class, closure of fi) that does nothing but build and return the object from its parameters."""
-    repo = ctx.repo
-    li = fi.module.local_imports(fi.node)
-    closures = {n.name: n for n in walk_no_nested(fi.node) if isinstance(n, (ast.FunctionDef, ast.AsyncFunctionDef))}
+    method of the class, closure of fi) that builds the object(s) from its parameters."""
+    hr = HelperResolver(ctx.repo, fi)
     out: list[_Site] = []
     for c in astq.calls(fi.node, nested=False):
         d = dotted(c.func)
@@ -674,29 +1197,16 @@ def _ctor_sites(ctx: Ctx, fi: FuncInfo) -> list[_Site]:
         if _last(d) in CTORS:
             out.append(_Site(c, c, _last(d), None))
             continue
-        helper: ast.AST | None = None
-        skip = False
-        if isinstance(c.func, ast.Name):
-            if d in closures:
-                helper = closures[d]
-            else:
-                fq = repo.resolve(fi.module, d, li)
-                h = repo.try_func(fq) if fq and fq.startswith("werkzeug") else None
-                helper = h.node if h is not None else None
-        elif isinstance(c.func, ast.Attribute) and isinstance(c.func.value, ast.Name) and c.func.value.id in ("self", "cls") and fi.cls is not None:
-            _, what = repo.lookup(fi.cls, c.func.attr)
-            if isinstance(what, FuncInfo):
-                helper = what.node
-                skip = "staticmethod" not in what.decorators
-        if helper is None:
+        r = hr.resolve(c)
+        if r is None:
             continue
-        inner = _ctor_returned(helper)
-        if inner is None:
-            continue
-        eff = _inline(helper, inner, c, skip)
-        if eff is None:
-            raise AnalysisError(f"{fi.fq}: cannot map the arguments of `{norm(c)[:60]}` onto the parameters of the helper that builds a {_last(dotted(inner.func))}")
-        out.append(_Site(c, eff, _last(dotted(inner.func)), _last(d)))
+        helper, skip = r
+        for inner in _ctor_built(ctx, helper):
+            eff = _inline(helper, inner, c, skip)
+            built = _ctor_name(helper, inner) or "?"
+            if eff is None:
+                raise AnalysisError(f"{fi.fq}: cannot map the arguments of `{norm(c)[:60]}` onto the parameters of the helper that builds a {built}")
+            out.append(_Site(c, eff, built, _last(d)))
     return out
 
 
@@ -732,8 +1242,109 @@ def _list_growth(fn: ast.AST) -> list[tuple[ast.AST, str, list[ast.AST]]]:
                 out.append((x, x.func.value.id, list(x.args[0].elts)))
         elif isinstance(x, ast.AugAssign) and isinstance(x.op, ast.Add) and isinstance(x.target, ast.Name) and isinstance(x.value, (ast.List, ast.Tuple)):
             out.append((x, x.target.id, list(x.value.elts)))
+        elif isinstance(x, ast.Assign) and len(x.targets) == 1 and isinstance(x.targets[0], ast.Name):
+            # growth by rebinding: `xs = xs + [e]`, `xs = [*xs, e]`
+            nm, v = x.targets[0].id, x.value
+            if isinstance(v, ast.BinOp) and isinstance(v.op, ast.Add) and astq.is_name(v.left, nm) and isinstance(v.right, (ast.List, ast.Tuple)):
+                out.append((x, nm, list(v.right.elts)))
+            elif isinstance(v, ast.List) and v.elts and isinstance(v.elts[0], ast.Starred) and astq.is_name(v.elts[0].value, nm) and not any(isinstance(e, ast.Starred) for e in v.elts[1:]):
+                out.append((x, nm, list(v.elts[1:])))
     out.sort(key=lambda p: (getattr(p[0], "lineno", 0), getattr(p[0], "col_offset", 0)))
     return out
+
+
+def _copied_list(e: ast.AST | None) -> str | None:
+    """the local list of which e is an element-for-element copy: `list(x)`, `x[:]`, `x.copy()`, `[*x]`."""
+    if isinstance(e, ast.Call) and isinstance(e.func, ast.Name) and e.func.id == "list" and len(e.args) == 1 and isinstance(e.args[0], ast.Name) and not e.keywords:
+        return e.args[0].id
+    if isinstance(e, ast.Call) and isinstance(e.func, ast.Attribute) and e.func.attr == "copy" and isinstance(e.func.value, ast.Name) and not e.args:
+        return e.func.value.id
+    if isinstance(e, ast.Subscript) and isinstance(e.value, ast.Name) and isinstance(e.slice, ast.Slice) and e.slice.lower is None and e.slice.upper is None and e.slice.step is None:
+        return e.value.id
+    if isinstance(e, ast.List) and len(e.elts) == 1 and isinstance(e.elts[0], ast.Starred) and isinstance(e.elts[0].value, ast.Name):
+        return e.elts[0].value.id
+    return None
+
+
+def _list_source(e: ast.AST | None) -> str | None:
+    """the local list whose elements e holds: the name itself or a copy of it."""
+    return e.id if isinstance(e, ast.Name) else _copied_list(e)
+
+
+def _list_mutations(repo: t.Any, fn: ast.AST, cfg: CFG, name: str) -> list[Node]:
+    muts = repo.mutators("list")
+    out = []
+    for x in walk_no_nested(fn):
+        hit = (
+            (isinstance(x, ast.Call) and isinstance(x.func, ast.Attribute) and astq.is_name(x.func.value, name) and x.func.attr in muts)
+            or (isinstance(x, ast.AugAssign) and astq.is_name(x.target, name))
+            or (isinstance(x, ast.Subscript) and astq.is_name(x.value, name) and isinstance(x.ctx, (ast.Store, ast.Del)))
+        )
+        if hit:
+            n = cfg.node_of(x)
+            if n is not None:
+                out.append(n)
+    return out
+
+
+def _expand_count(repo: t.Any, fn: ast.AST, cfg: CFG, rd: ReachingDefs, e: ast.AST, node: Node | None) -> ast.AST:
+    """a count handed to Weighting through a local (`n = len(xs)` ... `Weighting(-n, xs, ...)`) is replaced by its
+    defining expression - provided the local has that one definition here and the list it measures is neither rebound
+    nor changed between the measurement and the use."""
+    if node is None:
+        return e
+    repl: dict[str, ast.AST] = {}
+    for x in ast.walk(e):
+        if not (isinstance(x, ast.Name) and isinstance(x.ctx, ast.Load)):
+            continue
+        defs = rd.reaching(node, x.id)
+        if len(defs) != 1:
+            continue
+        d = next(iter(defs))
+        if d.kind not in ("assign", "unpack", "walrus") or d.value is None or d.node is None:
+            continue
+        dv = d.value
+        if d.index is not None:  # `n_a, n_b = len(a), len(b)`
+            if not (isinstance(dv, (ast.Tuple, ast.List)) and isinstance(d.stmt, ast.Assign) and len(d.stmt.targets) == 1 and isinstance(d.stmt.targets[0], (ast.Tuple, ast.List))
+                    and len(dv.elts) == len(d.stmt.targets[0].elts) and not any(isinstance(y, ast.Starred) for y in [*dv.elts, *d.stmt.targets[0].elts])):
+                continue
+            dv = dv.elts[d.index]
+        measured = [k.args[0].id for k in astq.calls(dv) if astq.is_name(k.func, "len") and len(k.args) == 1 and isinstance(k.args[0], ast.Name)]
+        if not measured or not all(isinstance(y, (ast.Name, ast.Call, ast.UnaryOp, ast.USub, ast.Load, ast.Constant, ast.BinOp, ast.Sub, ast.Mult)) for y in ast.walk(dv)):
+            continue
+        stale = False
+        for lst in measured:
+            if rd.reaching(d.node, lst) != rd.reaching(node, lst):
+                stale = True
+            for g in _list_mutations(repo, fn, cfg, lst):
+                if g.id in cfg.reach(d.node, avoid_nodes=[d.node]) and (g is node or node.id in cfg.reach(g, avoid_nodes=[d.node])):
+                    stale = True
+        if stale:
+            continue
+        repl[x.id] = dv
+    return subst(e, repl)
+
+
+def _minus_len_of(e: ast.AST | None) -> str | None:
+    """the list L when e is `-len(L)` (also `0 - len(L)`, `-1 * len(L)`, `len(L) * -1`)."""
+    def length(x: ast.AST) -> str | None:
+        if isinstance(x, ast.Call) and astq.is_name(x.func, "len") and len(x.args) == 1 and not x.keywords:
+            return norm(x.args[0])
+        return None
+
+    def minus_one(x: ast.AST) -> bool:
+        return isinstance(x, ast.UnaryOp) and isinstance(x.op, ast.USub) and isinstance(x.operand, ast.Constant) and x.operand.value == 1
+
+    if isinstance(e, ast.UnaryOp) and isinstance(e.op, ast.USub):
+        return length(e.operand)
+    if isinstance(e, ast.BinOp) and isinstance(e.op, ast.Sub) and isinstance(e.left, ast.Constant) and e.left.value == 0 and not isinstance(e.left.value, bool):
+        return length(e.right)
+    if isinstance(e, ast.BinOp) and isinstance(e.op, ast.Mult):
+        if minus_one(e.left):
+            return length(e.right)
+        if minus_one(e.right):
+            return length(e.left)
+    return None
 
 
 def _r31_weighting(ctx: Ctx) -> None:
@@ -752,20 +1363,45 @@ def _r31_weighting(ctx: Ctx) -> None:
     lit_lists: set[str] = set()
     nconv = 0
     al = guards.Aliases(cfg, rd)
+    hr = HelperResolver(repo, fi)
+
+    def conv_source(v: ast.AST | None, depth: int = 0) -> bool:
+        """v evaluates to what `get_converter(...)` returned: the call itself, or a call of a private helper each of
+        whose returns is such a value."""
+        if not isinstance(v, ast.Call) or depth > 2:
+            return False
+        if isinstance(v.func, ast.Attribute) and v.func.attr == "get_converter":
+            return True
+        r = hr.resolve(v)
+        if r is None:
+            return False
+        rets = astq.returns_of(r[0])
+        ok = bool(rets)
+        for rt in rets:
+            vals = _values_of(r[0], rt.value) if rt.value is not None else []
+            ok = ok and bool(vals) and all(conv_source(x, depth + 1) for x in vals)
+        return ok
+
     for c, recv_id, elems in _list_growth(fi.node):
         node = cfg.node_of(c)
         for a0 in elems:
             a = al.expand(a0, node) if node is not None and isinstance(a0, ast.Name) else a0  # `w = conv.weight; xs.append(w)`
-            if isinstance(a, ast.Attribute) and a.attr == "weight" and isinstance(a.value, ast.Name):
-                at = node
-                if a is not a0 and node is not None:
-                    wd = rd.reaching(node, a0.id)  # type: ignore[union-attr]
-                    at = next(iter(wd)).node if len(wd) == 1 else node
-                defs = rd.reaching(at, a.value.id) if at is not None else frozenset()
-                from_conv = bool(defs) and all(d.kind == "assign" and isinstance(d.value, ast.Call) and isinstance(d.value.func, ast.Attribute) and d.value.func.attr == "get_converter" for d in defs)
+            if isinstance(a, ast.Attribute) and a.attr == "weight":
+                if isinstance(a.value, ast.Name):
+                    at = node
+                    if a is not a0 and node is not None:
+                        wd = rd.reaching(node, a0.id)  # type: ignore[union-attr]
+                        at = next(iter(wd)).node if len(wd) == 1 else node
+                    defs = rd.reaching(at, a.value.id) if at is not None else frozenset()
+                    from_conv = bool(defs) and all(d.kind in ("assign", "walrus") and d.index is None and conv_source(d.value) for d in defs)
+                    shown = [norm(d.value)[:50] if d.value is not None else d.kind for d in defs]
+                elif conv_source(a.value):
+                    from_conv, shown = True, [norm(a.value)[:50]]
+                else:
+                    raise AnalysisError(f"{fi.fq}: `{norm(c)[:70]}` records the weight of `{norm(a.value)[:40]}`; cannot tell whether that is the converter get_converter returned")
                 nconv += 1
                 ctx.ob("R3.1", "a variable contributes the weight of the converter that get_converter returned for it", from_conv,
-                       f"`{norm(c)}`: `{a.value.id}` bound from {[norm(d.value)[:50] if d.value is not None else d.kind for d in defs]}", fi, c, "argument weight is the converter's weight")
+                       f"`{norm(c)}`: `{norm(a.value)}` bound from {shown}", fi, c, "argument weight is the converter's weight")
                 if from_conv:
                     conv_lists.add(recv_id)
             else:
@@ -780,7 +1416,7 @@ def _r31_weighting(ctx: Ctx) -> None:
         c = site.site
         f = _call_fields(site.eff, fields)
         lists = {k: f.get(k) for k in list_fields}
-        arg_f = [k for k, v in lists.items() if isinstance(v, ast.Name) and v.id in conv_lists]
+        arg_f = [k for k, v in lists.items() if _list_source(v) in conv_lists]
         ok_arg = len(arg_f) == 1
         ctx.ob("R3.1", "Weighting carries the list of converter weights", ok_arg,
                f"`{norm(site.eff)}`{' (through ' + site.via + ')' if site.via else ''}: list fields {[(k, norm(v) if v is not None else None) for k, v in lists.items()]}, converter-weight lists {sorted(conv_lists)}", fi, c, "Weighting has the converter weights")
@@ -788,31 +1424,51 @@ def _r31_weighting(ctx: Ctx) -> None:
             continue
         lit_f = [k for k in list_fields if k != arg_f[0]][0]
         lit_v = lists[lit_f]
+        lit_src = _list_source(lit_v)
         # the count that precedes the literal list in the tuple is minus its length
         pos = names.index(lit_f)
         cnt_f = names[pos - 1] if pos > 0 and names[pos - 1] in int_fields else None
         cnt_v = f.get(cnt_f) if cnt_f else None
-        ok_cnt = (
-            cnt_v is not None and lit_v is not None and isinstance(cnt_v, ast.UnaryOp) and isinstance(cnt_v.op, ast.USub)
-            and isinstance(cnt_v.operand, ast.Call) and astq.is_name(cnt_v.operand.func, "len") and len(cnt_v.operand.args) == 1
-            and norm(cnt_v.operand.args[0]) == norm(lit_v) and isinstance(lit_v, ast.Name) and lit_v.id in lit_lists and lit_v.id not in conv_lists
-        )
+        cnt_x = _expand_count(repo, fi.node, cfg, rd, cnt_v, cfg.node_of(c)) if cnt_v is not None else None
+        ok_cnt = cnt_x is not None and lit_src is not None and _minus_len_of(cnt_x) == lit_src and lit_src in lit_lists and lit_src not in conv_lists
         ctx.ob("R3.1", "more literal pieces sort first: the count before the literal list is minus its length", ok_cnt,
-               f"`{norm(site.eff)}`: {cnt_f} = {norm(cnt_v) if cnt_v is not None else None}, {lit_f} = {norm(lit_v) if lit_v is not None else None}", fi, c, "literal count is -len(literal list)")
+               f"`{norm(site.eff)}`: {cnt_f} = {norm(cnt_v) if cnt_v is not None else None}" + (f" (= {norm(cnt_x)})" if cnt_x is not None and cnt_v is not None and norm(cnt_x) != norm(cnt_v) else "")
+               + f", {lit_f} = {norm(lit_v) if lit_v is not None else None}", fi, c, "literal count is -len(literal list)")
 
 
 # ----------------------------------------------------------------------
 # R3.2: the rule loops as truth tables
 
 
+class _Propose(Exception):
+    """a helper called for one rule raised instead of answering."""
+
+
+class _Frame:
+    """one piece of code executed for a candidate rule: the body of a rule loop, or a helper it calls (whole function)."""
+
+    def __init__(self, cfg: CFG, locs: _Locals, mapping: Mapping, region: set[int] | None, head: Node | None, name: str):
+        self.cfg = cfg
+        self.locs = locs
+        self.mapping = mapping
+        self.region = region  # ids of the AST nodes of the loop body; None: a whole function
+        self.head = head
+        self.name = name
+        self.expanded: dict[int, ast.AST] = {}  # CFG node id -> its condition / returned expression with local flags expanded
+        self.calls: dict[int, "_Frame"] = {}  # id(call expression) -> frame of the helper it runs
+
+    def inside(self, n: Node) -> bool:
+        return n.ast is not None and (self.region is None or id(n.ast) in self.region)
+
+
 class _RuleLoop:
-    def __init__(self, m: _Matcher, cfg: CFG, locs: _Locals, fn: ast.AST, loop: ast.For):
+    def __init__(self, ctx: Ctx, m: _Matcher, cfg: CFG, locs: _Locals, fn: ast.AST, loop: ast.For, helpers: HelperResolver):
         self.loop = loop
         self.cfg = cfg
         if not isinstance(loop.target, ast.Name):
             raise AnalysisError(f"rule loop at line {loop.lineno}: target is not a single name")
         self.var = loop.target.id
-        self.map = {self.var: "$r"}
+        self.map: Mapping = {self.var: "$r"}
         heads = cfg.by_ast.get(id(loop))
         if not heads:
             raise AnalysisError(f"rule loop at line {loop.lineno}: no CFG node")
@@ -823,16 +1479,25 @@ class _RuleLoop:
         self.label = f"rule loop over {norm(loop.iter)} under `{under}`"
         self.weight = m.loop_weight.get(id(loop), 1)
         self.m = m
-        # atoms: the leaves of every test in the body, local flags / aliases replaced by what they stand for
+        self.helpers = helpers
         self.locals = locs
-        self.expanded: dict[int, ast.AST] = {}
+        # atoms: the leaves of every test executed for a rule - in the body and in the helpers called from it with the
+        # rule -, local flags / aliases replaced by what they stand for, a helper's parameters by its arguments
         self.atoms: dict[str, bool] = {}  # key -> request dependent
-        for tn in cfg.nodes:
-            if tn.kind == "test" and id(tn.ast) in self.body_ids:
-                ex = self.expanded[tn.id] = locs.expand(tn.ast, tn)
-                for leaf in _leaves(ex):
-                    key, _ = canon_atom(leaf, self.map)
-                    self.atoms[key] = self.atoms.get(key, False) or bool(astq.names_in(leaf) & set(m.request_params))
+        self.frame = _Frame(cfg, locs, self.map, self.body_ids, self.head, self.label)
+        # a rule the iteration filters out is not looked at at all: the filter's conditions are tested first
+        it = _rules_iteration(loop.iter, fn)
+        self.pre: list[tuple[_Frame, ast.AST, bool]] = []
+        for prm, cond, want in (it[1] if it is not None else []):
+            pf = _Frame(cfg, locs, {prm: "$r"}, set(), None, "filter of " + self.label)
+            for leaf in _leaves(cond):
+                if isinstance(leaf, ast.Constant):
+                    continue
+                ren = _renamed(leaf, pf.mapping)
+                key, _ = guards.canon(ren)
+                self.atoms[key] = self.atoms.get(key, False) or bool(astq.names_in(ren) & set(m.request_params))
+            self.pre.append((pf, cond, want))
+        self._collect(self.frame, 0)
         self.keys = sorted(self.atoms)
         self.admission = [k for k in self.keys if not self.atoms[k]]
         self.request = [k for k in self.keys if self.atoms[k]]
@@ -843,10 +1508,71 @@ class _RuleLoop:
         for bits in itertools.product((False, True), repeat=len(self.keys)):
             self.table[bits] = self._run(dict(zip(self.keys, bits)))
 
-    def _classify(self, n: Node) -> str | None:
+    # -- atoms ---------------------------------------------------------
+    def _helper_frame(self, fr: _Frame, call: ast.Call, at: Node, depth: int) -> _Frame | None:
+        r = self.helpers.resolve(call)
+        if r is None:
+            return None
+        fn, skip = r
+        if depth >= 3 or any(isinstance(x, (ast.For, ast.AsyncFor, ast.While, ast.Try, ast.With)) for x in walk_no_nested(fn)):
+            raise AnalysisError(f"{self.label}: helper `{norm(call.func)}` called for a rule is not a straight-line decision (loop / try / with inside, or nested too deep)")
+        bound = bind_call(fn, call, skip)
+        if bound is None:
+            raise AnalysisError(f"{self.label}: cannot map the arguments of `{norm(call)[:60]}` onto the helper's parameters")
+        mapping: dict[str, str | ast.AST] = {}
+        for prm, arg in bound.items():
+            mapping[prm] = _renamed(fr.locs.expand(arg, at), fr.mapping)
+        a = fn.args  # type: ignore[attr-defined]
+        hcfg = self.helpers.cfg(fn)
+        sub = _Frame(hcfg, _Locals(hcfg, [x.arg for x in [*a.posonlyargs, *a.args, *a.kwonlyargs]]), mapping, None, None, f"{fn.name}(...)")  # type: ignore[attr-defined]
+        self._collect(sub, depth + 1)
+        return sub
+
+    def _flag_of_helper(self, fr: _Frame, leaf: ast.AST, at: Node) -> bool:
+        """the leaf is a local that holds what a helper answered (`ok = _usable(rule)` ... `if ok`)."""
+        if not isinstance(leaf, ast.Name):
+            return False
+        defs = fr.locs.rd.reaching(at, leaf.id)
+        return bool(defs) and all(d.kind == "assign" and d.index is None and isinstance(d.value, ast.Call) and id(d.value) in fr.calls for d in defs)
+
+    def _note_cond(self, fr: _Frame, n: Node, e: ast.AST, depth: int) -> None:
+        ex = fr.expanded[n.id] = fr.locs.expand(e, n)
+        for leaf in _leaves(ex):
+            if isinstance(leaf, ast.Constant):
+                continue
+            if isinstance(leaf, ast.Call):
+                sub = self._helper_frame(fr, leaf, n, depth)
+                if sub is not None:
+                    fr.calls[id(leaf)] = sub
+                    continue
+            if self._flag_of_helper(fr, leaf, n):
+                continue
+            ren = _renamed(leaf, fr.mapping)
+            key, _ = guards.canon(ren)
+            self.atoms[key] = self.atoms.get(key, False) or bool(astq.names_in(ren) & set(self.m.request_params))
+
+    def _collect(self, fr: _Frame, depth: int) -> None:
+        nodes = sorted((n for n in fr.cfg.nodes if fr.inside(n)), key=lambda n: (n.lineno, n.id))
+        for n in nodes:  # statements first: a flag must know its helper before the test that reads it is looked at
+            if n.kind != "stmt":
+                continue
+            a = n.ast
+            v = a.value if isinstance(a, (ast.Assign, ast.AnnAssign, ast.Expr)) else None
+            if isinstance(v, ast.Call):
+                sub = self._helper_frame(fr, v, n, depth)
+                if sub is not None:
+                    fr.calls[id(v)] = sub
+        for n in nodes:
+            if n.kind == "test":
+                self._note_cond(fr, n, n.ast, depth)  # type: ignore[arg-type]
+            elif n.kind == "stmt" and fr.region is None and isinstance(n.ast, ast.Return) and n.ast.value is not None:
+                self._note_cond(fr, n, n.ast.value, depth)
+
+    # -- execution for one valuation ----------------------------------
+    def _classify(self, fr: _Frame, n: Node) -> str | None:
         m = self.m
         st = n.ast
-        txt = lambda e: _text(self.locals.expand(e, n), self.map)  # noqa: E731
+        txt = lambda e: _text(fr.locs.expand(e, n), fr.mapping)  # noqa: E731
         if isinstance(st, ast.Expr) and isinstance(st.value, ast.Call):
             c = st.value
             if isinstance(c.func, ast.Attribute) and astq.is_name(c.func.value, m.H) and c.func.attr in ("update", "add", "__ior__"):
@@ -857,47 +1583,133 @@ class _RuleLoop:
             return "wsflag" if isinstance(st.value, ast.Constant) and st.value.value is True else "wsflag-other"
         return None
 
-    def _run(self, val: dict[str, bool]) -> frozenset[str]:
-        cfg = self.cfg
-        acts: set[str] = set()
-        nxt = cfg.succ(self.head, "T")
-        if len(nxt) != 1:
-            raise AnalysisError(f"{self.label}: loop head has {len(nxt)} body successors")
-        n = nxt[0]
-        for _ in range(400):
-            if n is self.head:
-                return frozenset(acts)
-            if n is cfg.exit or n is cfg.raise_exit or n.ast is None or id(n.ast) not in self.body_ids:
-                return frozenset(acts | {"leave"})
-            if n.kind == "test":
-                def leaf_truth(leaf: ast.AST) -> bool:
-                    key, pos = canon_atom(leaf, self.map)
-                    return val[key] if pos else not val[key]
+    def _truth(self, fr: _Frame, e: ast.AST, val: dict[str, bool], acts: set[str], env: dict[str, t.Any], strict: bool = True) -> bool | None:
+        """value of a condition under the valuation, evaluated left to right with short-circuit (a helper that is not
+        reached does not record anything).  strict=False: None for a leaf the valuation does not cover."""
+        if isinstance(e, ast.BoolOp):
+            is_and = isinstance(e.op, ast.And)
+            for v in e.values:
+                b = self._truth(fr, v, val, acts, env, strict)
+                if b is None:
+                    return None
+                if b != is_and:
+                    return b
+            return is_and
+        if isinstance(e, ast.UnaryOp) and isinstance(e.op, ast.Not):
+            b = self._truth(fr, e.operand, val, acts, env, strict)
+            return None if b is None else not b
+        if isinstance(e, ast.Constant):
+            return bool(e.value)
+        if isinstance(e, ast.Name) and isinstance(env.get(e.id), bool):
+            return env[e.id]
+        if isinstance(e, ast.Call) and id(e) in fr.calls:
+            return self._invoke(fr.calls[id(e)], val, acts)
+        # the rule itself (the loop variable, a local it was copied to, a parameter it was passed as) is not None
+        ren = _renamed(e, {**fr.mapping, **{k: "$r" for k, v in env.items() if v == "$r"}})
+        cp = astq.cmp_parts(ren)
+        if astq.is_name(ren, "$r"):
+            return True
+        if cp is not None and astq.is_name(cp[0], "$r") and astq.is_none(cp[2]) and isinstance(cp[1], (ast.Is, ast.IsNot, ast.Eq, ast.NotEq)):
+            return isinstance(cp[1], (ast.IsNot, ast.NotEq))
+        key, pos = guards.canon(ren)
+        if key not in val:
+            if strict:
+                raise AnalysisError(f"{self.label}: condition atom `{key}` was not collected")
+            return None
+        return val[key] if pos else not val[key]
 
-                truth = _eval(self.expanded[n.id], leaf_truth)
+    def _invoke(self, sub: _Frame, val: dict[str, bool], acts: set[str]) -> bool:
+        """run a helper for the rule: its recordings are added to acts, its answer is returned."""
+        st, v = self._walk(sub, sub.cfg.entry, val, acts, {})
+        if st == "ret":
+            return bool(v)
+        if st == "raise":
+            raise _Propose()
+        raise AnalysisError(f"{self.label}: helper {sub.name} ended in `{st}`")
+
+    def _walk(self, fr: _Frame, n: Node, val: dict[str, bool], acts: set[str], env: dict[str, t.Any]) -> tuple[str, t.Any]:
+        cfg = fr.cfg
+        after = False  # a loop body was left through `break`: the statements behind the loop run for this rule
+        for _ in range(400):
+            if fr.head is not None and n is fr.head and not after:
+                return "next", None
+            if n is cfg.exit:
+                return ("ret", False) if fr.region is None else ("leave", None)
+            if n is cfg.raise_exit:
+                return "raise", None
+            if n.kind in ("entry",):
+                n = cfg.succ(n, None)[0]
+                continue
+            if fr.region is not None and not fr.inside(n):
+                after = True
+            if n.kind == "test":
+                if after:
+                    truth = self._truth(fr, fr.locs.expand(n.ast, n), val, acts, env, strict=False)  # type: ignore[arg-type]
+                    if truth is None:
+                        return "leave", None
+                else:
+                    truth = self._truth(fr, fr.expanded[n.id], val, acts, env)
                 s = cfg.succ(n, "T" if truth else "F")
                 if not s:
-                    return frozenset(acts | {"dead"})
+                    return "dead", None
                 n = s[0]
                 continue
             if n.kind != "stmt":
-                raise AnalysisError(f"{self.label}: unexpected `{n.kind}` node ({n.text()[:40]}) inside a rule loop")
+                if after:
+                    return "leave", None
+                raise AnalysisError(f"{self.label}: unexpected `{n.kind}` node ({n.text()[:40]}) inside {fr.name}")
             a = n.ast
             if isinstance(a, ast.Return):
-                hit = a.value is not None and self.var in astq.names_in(a.value)
-                return frozenset(acts | {"hit" if hit else "return-other"})
+                if fr.region is None:
+                    if a.value is None:
+                        return "ret", False
+                    return "ret", self._truth(fr, fr.expanded[n.id], val, acts, env)
+                carriers = {self.var} | {k for k, v in env.items() if v == "$r"}
+                hit = a.value is not None and bool(carriers & astq.names_in(a.value))
+                return ("hit" if hit else "leave" if after else "return-other"), None
             if isinstance(a, ast.Raise) or cfg._is_noreturn_call(a):
                 # a *proposal* for this rule (slash redirect), not a match: the path as given is not admitted,
                 # so no 405 bookkeeping is owed for it (whether the proposal itself is method-guarded is C12-R12.5)
-                return frozenset(acts | {"propose"})
-            k = self._classify(n)
-            if k:
-                acts.add(k)
+                if fr.region is None:
+                    return "raise", None
+                return ("leave" if after else "propose"), None
+            v = a.value if isinstance(a, (ast.Assign, ast.AnnAssign, ast.Expr)) else None
+            if isinstance(v, ast.Call) and id(v) in fr.calls and not after:
+                ans = self._invoke(fr.calls[id(v)], val, acts)
+                for tg in (a.targets if isinstance(a, ast.Assign) else [a.target] if isinstance(a, ast.AnnAssign) else []):
+                    if isinstance(tg, ast.Name):
+                        env[tg.id] = ans
+            elif isinstance(a, (ast.Assign, ast.AnnAssign)) and v is not None:
+                carried = astq.is_name(v, self.var) and fr.region is not None or (isinstance(v, ast.Name) and env.get(v.id) == "$r")
+                for tg in (a.targets if isinstance(a, ast.Assign) else [a.target]):
+                    if isinstance(tg, ast.Name):
+                        if carried:
+                            env[tg.id] = "$r"  # `found = rule`
+                        else:
+                            env.pop(tg.id, None)
+            if not after:
+                k = self._classify(fr, n)
+                if k:
+                    acts.add(k)
             s = cfg.succ(n, None)
             if not s:
-                return frozenset(acts | {"dead"})
+                return "dead", None
             n = s[0]
         raise AnalysisError(f"{self.label}: simulation did not terminate")
+
+    def _run(self, val: dict[str, bool]) -> frozenset[str]:
+        acts: set[str] = set()
+        nxt = self.cfg.succ(self.head, "T")
+        if len(nxt) != 1:
+            raise AnalysisError(f"{self.label}: loop head has {len(nxt)} body successors")
+        try:
+            for pf, cond, want in self.pre:
+                if self._truth(pf, cond, val, acts, {}) != want:
+                    return frozenset()  # filtered out before the body
+            st, _ = self._walk(self.frame, nxt[0], val, acts, {})
+        except _Propose:
+            st = "propose"
+        return frozenset(acts if st == "next" else acts | {st})
 
     # -- queries on the truth table --
     def out(self, val: dict[str, bool]) -> frozenset[str]:
@@ -920,10 +1732,11 @@ class _RuleLoop:
         return ", ".join(f"{k}={'T' if val[k] else 'F'}" for k in (keys or self.keys))
 
 
-def _rule_loops(m: _Matcher) -> list[_RuleLoop]:
+def _rule_loops(ctx: Ctx, m: _Matcher) -> list[_RuleLoop]:
     out = []
     cfgs: dict[int, CFG] = {id(m.search): m.search_cfg, id(m.match.node): m.match_cfg}
     locs: dict[int, _Locals] = {}
+    helpers = HelperResolver(ctx.repo, m.match)
     for n in m.rule_loops:
         fn = _enclosing_func(n)
         if fn is None or isinstance(fn, ast.Lambda):
@@ -933,7 +1746,7 @@ def _rule_loops(m: _Matcher) -> list[_RuleLoop]:
         if id(fn) not in locs:
             a = fn.args  # type: ignore[union-attr]
             locs[id(fn)] = _Locals(cfgs[id(fn)], [x.arg for x in [*a.posonlyargs, *a.args, *a.kwonlyargs]])
-        out.append(_RuleLoop(m, cfgs[id(fn)], locs[id(fn)], fn, n))
+        out.append(_RuleLoop(ctx, m, cfgs[id(fn)], locs[id(fn)], fn, n, helpers))
     out.sort(key=lambda l: l.loop.lineno)
     return out
 
@@ -942,7 +1755,7 @@ def _r32(ctx: Ctx, m: _Matcher) -> None:
     fi = m.match
     if m.H is None:
         raise AnalysisError(f"{fi.fq}: cannot identify the set that collects the methods of discarded rules")
-    loops = _rule_loops(m)
+    loops = _rule_loops(ctx, m)
     ctx.floor("R3.2", "loops over candidate rules in the search", sum(l.weight for l in loops), 3)
     hitting = [l for l in loops if any(("hit" in o or "propose" in o) for o in l.table.values())]
     ctx.floor("R3.2", "rule loops that can return / propose a rule", sum(l.weight for l in hitting), 3)
@@ -1018,62 +1831,182 @@ def _r32(ctx: Ctx, m: _Matcher) -> None:
 # R3.3
 
 
+def _adapter_slots(ctx: Ctx) -> tuple[FuncInfo, CFG, list[ast.Call]]:
+    """MapAdapter.match and the calls in it that run the matcher (`<map>._matcher.match(...)`, the receiver possibly
+    held in a local)."""
+    ad = ctx.repo.func("routing.map.MapAdapter.match")
+    cfg = cfg_of(ad)
+    ms = [c for c in astq.method_calls(ad.node, "match", nested=False) if _receiver(ad, c).endswith("._matcher")]
+    if not ms:
+        raise AnalysisError(f"{ad.fq}: no call of <map>._matcher.match")
+    return ad, cfg, ms
+
+
+def _exc_class(e: ast.AST | None) -> str | None:
+    """last component of the exception class an expression evaluates to (`X(...)` or the class `X` itself)."""
+    if e is None or is_opaque(e):
+        return None
+    d = dotted(e.func if isinstance(e, ast.Call) else e)
+    return _last(d) if d else None
+
+
+def _attribute_stores(cls: ClassInfo, init: FuncInfo) -> list[tuple[str, ast.AST]]:
+    """(attribute, value expression) for what __init__ stores on self: `self.a = v` (also in tuple form),
+    `setattr(self, "a", v)` / `object.__setattr__(self, "a", v)`, and a loop `for n, v in zip(<names>, <values>):
+    setattr(self, n, v)` over written-out names (or the class's __slots__) and values, which is unrolled."""
+    out: list[tuple[str, ast.AST]] = []
+
+    def setattr_call(x: ast.AST) -> tuple[ast.AST, ast.AST] | None:
+        if isinstance(x, ast.Call) and (dotted(x.func) or "") in ("setattr", "object.__setattr__", "super().__setattr__") and len(x.args) == 3 and astq.is_name(x.args[0], "self"):
+            return x.args[1], x.args[2]
+        return None
+
+    def names_of(e: ast.AST) -> list[str] | None:
+        if isinstance(e, ast.Attribute) and e.attr == "__slots__":  # NoMatch.__slots__ / self.__slots__ / type(self).__slots__
+            e = cls.attrs.get("__slots__")  # type: ignore[assignment]
+        if isinstance(e, (ast.Tuple, ast.List)) and all(isinstance(astq.const_str(x), str) for x in e.elts):
+            return [astq.const_str(x) for x in e.elts]  # type: ignore[misc]
+        return None
+
+    def pairs(tg: ast.AST, v: ast.AST) -> None:
+        if isinstance(tg, ast.Attribute) and astq.is_name(tg.value, "self"):
+            out.append((tg.attr, v))
+        elif isinstance(tg, (ast.Tuple, ast.List)) and isinstance(v, (ast.Tuple, ast.List)) and len(tg.elts) == len(v.elts):
+            for t_, v_ in zip(tg.elts, v.elts):
+                pairs(t_, v_)
+
+    for st in walk_no_nested(init.node):
+        if isinstance(st, ast.Assign):
+            for tg in st.targets:
+                pairs(tg, st.value)
+        elif isinstance(st, ast.AnnAssign) and st.value is not None:
+            pairs(st.target, st.value)
+        elif isinstance(st, ast.For):
+            it = st.iter
+            body = [b for b in st.body if isinstance(b, ast.Expr)]
+            sc = setattr_call(body[0].value) if len(st.body) == 1 and body else None
+            if (sc is not None and isinstance(it, ast.Call) and astq.is_name(it.func, "zip") and len(it.args) == 2 and isinstance(st.target, ast.Tuple) and len(st.target.elts) == 2
+                    and all(isinstance(x, ast.Name) for x in st.target.elts) and astq.is_name(sc[0], st.target.elts[0].id) and astq.is_name(sc[1], st.target.elts[1].id)):  # type: ignore[attr-defined]
+                nms = names_of(it.args[0])
+                if nms is not None and isinstance(it.args[1], (ast.Tuple, ast.List)):
+                    out += list(zip(nms, it.args[1].elts))
+        elif isinstance(st, ast.Expr):
+            sc = setattr_call(st.value)
+            if sc is not None and isinstance(astq.const_str(sc[0]), str):
+                out.append((astq.const_str(sc[0]), sc[1]))  # type: ignore[arg-type]
+    return out
+
+
 def _r33(ctx: Ctx, m: _Matcher) -> None:
     repo = ctx.repo
-    ad = repo.func("routing.map.MapAdapter.match")
-    cfg = cfg_of(ad)
+    ad, cfg, ms = _adapter_slots(ctx)
     li = ad.module.local_imports(ad.node)
 
     def res(e: ast.AST | None) -> str:
         d = dotted(e.func if isinstance(e, ast.Call) else e) if e is not None else None
         return repo.resolve(ad.module, d, li) or "" if d else ""
 
-    handler = None
+    handlers = []
     for tr in walk_no_nested(ad.node):
-        if isinstance(tr, ast.Try) and any(isinstance(c.func, ast.Attribute) and c.func.attr == "match" and norm(c.func.value).endswith("._matcher") for s in tr.body for c in astq.calls(s)):
+        if isinstance(tr, ast.Try) and any(_inside(c, s) or c is s for c in ms for s in tr.body):
             for h in tr.handlers:
-                if h.type is not None and _last(res(h.type)) == "NoMatch":
-                    handler = h
-    if handler is None or handler.name is None:
-        raise AnalysisError(f"{ad.fq}: no `except NoMatch as e` around the matcher call")
+                types = h.type.elts if isinstance(h.type, ast.Tuple) else [h.type] if h.type is not None else []
+                if any(_last(res(x)) == "NoMatch" for x in types):
+                    handlers.append(h)
+    if len(handlers) != 1 or handlers[0].name is None:
+        raise AnalysisError(f"{ad.fq}: expected one `except NoMatch as e` around the matcher call, found {len(handlers)}")
+    handler = handlers[0]
     hn = cfg.by_ast.get(id(handler), [None])[0]
     if hn is None:
         raise AnalysisError(f"{ad.fq}: handler has no CFG node")
     target = f"{handler.name}.have_match_for"
-    nonempty, empty = _polar_edges(cfg, target)
-    nonempty = [(tn, l) for tn, l in nonempty if _inside(tn.ast, handler)]
-    empty = [(tn, l) for tn, l in empty if _inside(tn.ast, handler)]
-    if not nonempty:
-        raise AnalysisError(f"{ad.fq}: the NoMatch handler never tests `{target}` in a form the rule understands")
-    raises = [r for r in astq.raises_of(ad.node)]
-    mna = [r for r in raises if _last(res(r.exc)) == "MethodNotAllowed"]
-    nf = [r for r in raises if _last(res(r.exc)) == "NotFound"]
-    ctx.floor("R3.3", "raise MethodNotAllowed in MapAdapter.match", len(mna), 1)
-    ctx.floor("R3.3", "raise NotFound in MapAdapter.match", len(nf), 1)
-    for r in mna:
-        rn = cfg.node_of(r)
-        inh = _inside(r, handler)
-        dom = rn is not None and any(cfg.edge_dominates(tn, l, rn) for tn, l in nonempty)
-        arg = astq.arg_or_kw(r.exc, 0, "valid_methods") if isinstance(r.exc, ast.Call) else None
-        uses = arg is not None and any(norm(x) == target for x in ast.walk(arg)) and not any(isinstance(x, (ast.BinOp, ast.IfExp, ast.Subscript)) for x in ast.walk(arg))
-        ctx.ob("R3.3", "MethodNotAllowed is raised only when have_match_for is non-empty", inh and dom,
-               f"inside the NoMatch handler: {inh}; dominated by the non-empty edge of `{target}`: {dom}", ad, r, "MethodNotAllowed guarded by have_match_for")
+    helpers = HelperResolver(repo, ad)
+    helpers.typed[handler.name] = repo.cls("routing.exceptions.NoMatch")  # `e.some_method()` runs NoMatch's method with self = e
+    class_names = {c.name for c in repo.all_classes()}
+
+    # which exception value leaves the handler when have_match_for is non-empty / empty: the handler is walked path by
+    # path under both valuations; a raised name is followed back to the value it was given on that path
+    exits: dict[bool, list[t.Any]] = {}
+    for ne in (True, False):
+        def decide(leaf: ast.AST, ne: bool = ne) -> bool | None:
+            p = truthy_polarity(leaf, target)
+            if p is None:
+                cp = astq.cmp_parts(leaf)
+                if astq.is_name(leaf, handler.name):
+                    return True  # the caught exception object
+                if cp is not None and astq.is_name(cp[0], handler.name) and astq.is_none(cp[2]) and isinstance(cp[1], (ast.Is, ast.IsNot)):
+                    return isinstance(cp[1], ast.IsNot)
+                if any(norm(x) == target for x in ast.walk(leaf)):
+                    raise AnalysisError(f"{ad.fq}: the NoMatch handler tests `{norm(leaf)[:60]}`: a form of asking whether `{target}` is empty that the rule does not understand")
+                return None
+            return p == ne
+
+        w = Walker(cfg, decide, helpers)
+        xs = [x for x in w.run(hn, {}, skip_start=True) if x.kind != "loop"]
+        if any(st.split(".")[0].split("[")[0] == handler.name for st in w.attr_stores):
+            raise AnalysisError(f"{ad.fq}: the NoMatch handler assigns to attributes of `{handler.name}`")
+        for x in xs:
+            if x.kind == "caught":
+                raise AnalysisError(f"{ad.fq}: a raise inside the NoMatch handler is caught again inside match(); not followed")
+            if x.kind == "raise" and x.value is not None and (_exc_class(x.value) is None or _exc_class(x.value) not in class_names):
+                raise AnalysisError(f"{ad.fq}: cannot determine which exception `{norm(x.node.ast)[:60] if x.node and x.node.ast is not None else '?'}` raises on the path {cfg.fmt_path(x.passed)[:200]}")
+            if x.kind == "raise" and x.value is None and not (x.node is not None and isinstance(x.node.ast, ast.Raise)):
+                raise AnalysisError(f"{ad.fq}: the NoMatch handler leaves through `{norm(x.node.ast)[:60] if x.node and x.node.ast is not None else '?'}`, which the rule cannot follow")
+        exits[ne] = xs
+
+    def cls_of(x: t.Any) -> str:
+        if x.kind != "raise":
+            return f"({x.kind})"
+        return _exc_class(x.value) or "(re-raise)"
+
+    def site(x: t.Any) -> ast.AST:
+        return x.node.ast if x.node is not None and x.node.ast is not None else handler
+
+    # 1: MethodNotAllowed only with a non-empty set; 3: NotFound only with an empty one
+    for what, wrong_row, instance, construct in (
+        ("MethodNotAllowed", False, "MethodNotAllowed is raised only when have_match_for is non-empty", "MethodNotAllowed guarded by have_match_for"),
+        ("NotFound", True, "NotFound is raised only from the NoMatch handler with have_match_for empty", "NotFound guarded by empty have_match_for"),
+    ):
+        sites: dict[int, ast.AST] = {}
+        for ne in (True, False):
+            for x in exits[ne]:
+                if cls_of(x) == what:
+                    sites.setdefault(id(site(x)), site(x))
+        if what == "NotFound":
+            ctx.floor("R3.3", "exits of the NoMatch handler that raise NotFound", len(sites), 1)
+        for sid, st in sorted(sites.items(), key=lambda p: getattr(p[1], "lineno", 0)):
+            bad = [x for x in exits[wrong_row] if cls_of(x) == what and id(site(x)) == sid]
+            ctx.ob("R3.3", instance, not bad,
+                   (f"`{norm(st)[:70]}` lets {what} leave the handler only on paths on which `{target}` is {'empty' if wrong_row else 'non-empty'}" if not bad else
+                    f"with `{target}` {'non-empty' if wrong_row else 'empty'} {what} leaves the handler: " + cfg.fmt_path(bad[0].passed)),
+                   ad, st, construct)
+        # the same exception raised where match() can get without a NoMatch (a raise that only the handler leads to
+        # was judged above, wherever it is written)
+        for r in astq.raises_of(ad.node):
+            rn = cfg.node_of(r)
+            if r.exc is None or rn is None or id(r) in sites or cfg.node_dominates(hn, rn):
+                continue
+            cands = [r.exc]
+            if isinstance(r.exc, ast.Name):
+                cands += [v for _, v in astq.assigns_to(ad.node, r.exc.id) if v is not None]
+            if any(_exc_class(c) == what for c in cands):
+                ctx.ob("R3.3", instance, False, f"`{norm(r)[:70]}` raises {what} on a path that does not come from the NoMatch handler", ad, r, construct)
+    # 2: the 405 carries the recorded set
+    seen_calls: set[str] = set()
+    for x in exits[True] + exits[False]:
+        if cls_of(x) != "MethodNotAllowed" or norm(x.value) in seen_calls:
+            continue
+        seen_calls.add(norm(x.value))
+        arg = astq.arg_or_kw(x.value, 0, "valid_methods") if isinstance(x.value, ast.Call) else None
+        uses = arg is not None and any(norm(y) == target for y in ast.walk(arg)) and not any(isinstance(y, (ast.BinOp, ast.IfExp, ast.Subscript, ast.Compare, ast.BoolOp)) for y in ast.walk(arg))
         ctx.ob("R3.3", "MethodNotAllowed lists exactly the recorded methods", uses,
-               f"valid_methods = {norm(arg) if arg is not None else None}", ad, r, "MethodNotAllowed carries have_match_for")
-    for r in nf:
-        rn = cfg.node_of(r)
-        inh = _inside(r, handler)
-        dom = rn is not None and any(cfg.edge_dominates(tn, l, rn) for tn, l in empty)
-        ctx.ob("R3.3", "NotFound is raised only from the NoMatch handler with have_match_for empty", inh and dom,
-               f"inside the NoMatch handler: {inh}; dominated by the empty edge of `{target}`: {dom}", ad, r, "NotFound guarded by empty have_match_for")
-    mnodes = [x for x in (cfg.node_of(r) for r in mna) if x is not None]
-    r_ = cfg.reach(hn, avoid_nodes=mnodes, avoid_edges=empty)
-    leak = cfg.exit.id in r_ or cfg.raise_exit.id in r_
-    w = None
-    if leak:
-        w = cfg.path(hn, cfg.raise_exit, avoid_nodes=mnodes, avoid_edges=empty) or cfg.path(hn, cfg.exit, avoid_nodes=mnodes, avoid_edges=empty)
-    ctx.ob("R3.3", "with have_match_for non-empty every path through the handler raises MethodNotAllowed", not leak,
-           "no path from the handler to an exit avoids the raise unless it takes an `empty` edge" if not leak else "path: " + cfg.fmt_path(w or []), ad, handler, "non-empty have_match_for always raises MethodNotAllowed")
+               f"the exception that leaves the handler is `{norm(x.value)[:90]}`: valid_methods = {norm(arg) if arg is not None else None}", ad, site(x), "MethodNotAllowed carries have_match_for")
+    # 4: a non-empty set always ends in MethodNotAllowed
+    leaks = [x for x in exits[True] if cls_of(x) != "MethodNotAllowed"]
+    ctx.ob("R3.3", "with have_match_for non-empty every path through the handler raises MethodNotAllowed", not leaks and bool(exits[True]),
+           f"{len(exits[True])} path(s) through the handler with `{target}` non-empty, each raises MethodNotAllowed" if not leaks and exits[True] else
+           (f"{cls_of(leaks[0])} leaves the handler on the path: " + cfg.fmt_path(leaks[0].passed) if leaks else "no path through the handler found"),
+           ad, handler, "non-empty have_match_for always raises MethodNotAllowed")
 
     # plumbing: NoMatch stores its first argument under the attribute the handler reads; the matcher passes the set its loops update
     nm = repo.cls("routing.exceptions.NoMatch")
@@ -1081,10 +2014,14 @@ def _r33(ctx: Ctx, m: _Matcher) -> None:
     if init is None:
         raise AnalysisError("NoMatch.__init__ missing")
     p1 = [p for p in init.params if p != "self"][:1]
-    stored = any(isinstance(st, ast.Assign) and any(astq.is_self_attr(tg, "have_match_for") for tg in st.targets) and astq.is_name(st.value, p1[0] if p1 else None) for st in walk_no_nested(init.node))
-    ctx.ob("R3.3", "NoMatch stores its first argument as have_match_for", bool(p1) and stored, f"first parameter `{p1[0] if p1 else None}`", init, init.node, "NoMatch stores have_match_for")
+    held = [v for a, v in _attribute_stores(nm, init) if a == "have_match_for"]
+    if not held:
+        raise AnalysisError(f"{init.fq}: cannot see where `have_match_for` is stored (plain assignment, setattr, or setattr over zip(<names>, <values>))")
+    stored = all(astq.is_name(v, p1[0] if p1 else None) for v in held)
+    ctx.ob("R3.3", "NoMatch stores its first argument as have_match_for", bool(p1) and stored, f"first parameter `{p1[0] if p1 else None}`; have_match_for is set to {[norm(v) for v in held]}", init, init.node, "NoMatch stores have_match_for")
     fi = m.match
-    ctx.floor("R3.3", "NoMatch(...) raises in the matcher", len(m.nomatch_calls), 3)
+    # one construction is enough (the raises may share a helper that builds the exception); zero = nothing to check
+    ctx.floor("R3.3", "NoMatch(...) constructions in the matcher", len(m.nomatch_calls), 1)
     for c in m.nomatch_calls:
         a0 = c.args[0] if c.args else astq.kwarg(c, "have_match_for")
         ok = m.H is not None and astq.is_name(a0, m.H)
@@ -1145,6 +2082,15 @@ def _r34(ctx: Ctx, m: _Matcher, scope: t.Callable[[ClassInfo], bool], floor: boo
     if floor:
         ctx.floor("R3.4", "converter classes examined", nclasses, 8)
     sites = [c for c in astq.calls(fi.node) if isinstance(c.func, ast.Attribute) and c.func.attr == "to_python"]
+    # ... or in a private method / module function that match() hands the conversion to
+    hr = HelperResolver(ctx.repo, fi)
+    outside: dict[int, ast.AST] = {}
+    for k in astq.calls(fi.node):
+        r = hr.resolve(k)
+        if r is not None and not _inside(r[0], fi.node) and r[0] is not fi.node:
+            outside.setdefault(id(r[0]), r[0])
+    for hf in outside.values():
+        sites += [c for c in astq.calls(hf) if isinstance(c.func, ast.Attribute) and c.func.attr == "to_python"]
     if floor:
         ctx.floor("R3.4", "to_python call sites in the matcher", len(sites), 1)
     if not rejecting:
@@ -1153,7 +2099,7 @@ def _r34(ctx: Ctx, m: _Matcher, scope: t.Callable[[ClassInfo], bool], floor: boo
     for c in sites:
         fn = _enclosing_func(c)
         in_search = fn is m.search or (fn is not None and _inside(fn, m.search))
-        cfg = m.search_cfg if fn is m.search else m.match_cfg if fn is fi.node else CFG(fn)  # type: ignore[arg-type]
+        cfg = m.search_cfg if fn is m.search else m.match_cfg if fn is fi.node else hr.cfg(fn)  # type: ignore[arg-type]
         # innermost try whose body contains the call and that has a handler for the exception
         handler = None
         cur = astq.parent(c)
@@ -1344,9 +2290,17 @@ def _r36(ctx: Ctx, m: _Matcher) -> None:
     ctx.floor("R3.6", "statements that use the merged path", len(uses), 1)
     for n, what in sorted(uses.values(), key=lambda p: p[0].lineno):
         ok = guarded(n)
+        how = f"dominated by `{flag}` being true: {ok}"
+        if not ok and what.startswith("`"):
+            # the statement itself can also run with the flag off (a handler shared by both attempts, say), but it sees
+            # the merged value only through definitions that are executed under the flag - and the flag does not change
+            seen = {d for root in _evaluated(n) for x in ast.walk(root) if isinstance(x, ast.Name) and isinstance(x.ctx, ast.Load) for d in rd.reaching(n, x.id) if d in tainted}
+            if seen and all(d.node is not None and guarded(d.node) for d in seen):
+                ok = True
+                how = f"reachable with `{flag}` off, but every definition through which it sees the merged path ({', '.join(sorted({'line ' + str(d.node.lineno) for d in seen if d.node is not None}))}) is executed only with `{flag}` true"
         ctx.ob(
             "R3.6", "the path with merged slashes is used only when the map-level merge_slashes is on", ok,
-            f"`{norm(n.ast)[:70]}` uses {what}; dominated by `{flag}` being true: {ok}"
+            f"`{norm(n.ast)[:70]}` uses {what}; {how}"
             + ("" if ok else " - with Map(merge_slashes=False) a path with doubled slashes is matched against the merged path: the retry's side exits (slash redirect, 405 bookkeeping) answer for a path no rule admits"),
             fi, n.ast, f"merged path used under merge_slashes: {norm(n.ast)[:60]}",
         )
@@ -1374,7 +2328,15 @@ def _r35_function(ctx: Ctx, fi: FuncInfo) -> tuple[int, int]:
     cfg = cfg_of(fi)
     rd = ReachingDefs(cfg, fi.params)
     muts = repo.mutators("list")
-    stores: list[tuple[ast.Call, str, Node, str]] = []
+    binds = _bindings(fi.node, HelperResolver(repo, fi))
+    list_locals = {nm for _, nm, v in binds if _is_fresh_list(v)}
+    while True:  # a name bound to another list local holds a list too (the same object: no fresh list for it)
+        more = {nm for _, nm, v in binds if isinstance(v, ast.Name) and v.id in list_locals} - list_locals
+        if not more:
+            break
+        list_locals |= more
+    stores: list[tuple[ast.Call, str, Node, str]] = []  # the list object itself is handed to the constructor
+    copies: list[tuple[ast.Call, str, str]] = []  # an element-for-element copy is handed over
     for site in _ctor_sites(ctx, fi):
         c = site.site
         node = cfg.node_of(c)
@@ -1384,12 +2346,15 @@ def _r35_function(ctx: Ctx, fi: FuncInfo) -> tuple[int, int]:
         for a in list(site.eff.args) + [k.value for k in site.eff.keywords]:
             if isinstance(a, ast.Name) and a.id not in seen_here:
                 # a local that is (somewhere in the function) bound to a fresh list
-                if rd.reaching(node, a.id) and any(_is_fresh_list(v) for _, v in astq.assigns_to(fi.node, a.id)):
+                if rd.reaching(node, a.id) and a.id in list_locals:
                     seen_here.add(a.id)
                     stores.append((c, a.id, node, site.callee))
-    if not stores:
+            elif _copied_list(a) in list_locals and _copied_list(a) not in seen_here:
+                seen_here.add(_copied_list(a))  # type: ignore[arg-type]
+                copies.append((c, _copied_list(a), site.callee))  # type: ignore[arg-type]
+    if not stores and not copies:
         return 0, 0
-    names = {nm for _, nm, _, _ in stores}
+    names = {nm for _, nm, _, _ in stores} | {nm for _, nm, _ in copies}
     mut_sites: dict[str, list[tuple[ast.AST, Node]]] = {nm: [] for nm in names}
     kills: dict[str, list[Node]] = {nm: [] for nm in names}
     for n in cfg.nodes:
@@ -1405,16 +2370,19 @@ def _r35_function(ctx: Ctx, fi: FuncInfo) -> tuple[int, int]:
                     mut_sites[x.target.id].append((x, n))
                 elif isinstance(x, ast.Subscript) and isinstance(x.value, ast.Name) and x.value.id in names and isinstance(x.ctx, (ast.Store, ast.Del)):
                     mut_sites[x.value.id].append((astq.stmt_of(fi, x) or x, n))
-        if isinstance(a, (ast.Assign, ast.AnnAssign)):
-            tgs = a.targets if isinstance(a, ast.Assign) else [a.target]
-            if len(tgs) > 1 and _is_fresh_list(a.value) and any(isinstance(tg, ast.Name) and tg.id in names for tg in tgs):
-                # one new list bound to several names: not a fresh list for each of them
-                ctx.ob("R3.5", "every weight list is an object of its own", False,
-                       f"`{norm(a)}` binds one list object to {len(tgs)} names; what is appended through one shows up in the other",
-                       fi, a, f"shared fresh list {norm(a)}")
-            for tg in tgs:
-                if isinstance(tg, ast.Name) and tg.id in names and _is_fresh_list(a.value):
-                    kills[tg.id].append(n)
+        if isinstance(a, ast.Assign) and len(a.targets) > 1 and _is_fresh_list(a.value) and any(isinstance(tg, ast.Name) and tg.id in names for tg in a.targets):
+            # one new list bound to several names: not a fresh list for each of them
+            ctx.ob("R3.5", "every weight list is an object of its own", False,
+                   f"`{norm(a)}` binds one list object to {len(a.targets)} names; what is appended through one shows up in the other",
+                   fi, a, f"shared fresh list {norm(a)}")
+    for st, nm, v in binds:
+        if nm in names and _is_fresh_list(v):
+            kn = cfg.node_of(st)
+            if kn is not None:
+                kills[nm].append(kn)
+    for c, nm, callee in copies:
+        ctx.ob("R3.5", f"list `{nm}` stored into {callee}(...) is not mutated afterwards", True,
+               f"`{norm(c)[:80]}` stores a copy of `{nm}`: later changes of `{nm}` ({len(mut_sites[nm])} mutation site(s)) cannot reach the part", fi, c, f"{nm} stored in {callee} stays frozen")
     for c, nm, node, callee in stores:
         r = cfg.reach(node, avoid_nodes=kills[nm])
         hits = [(x, n) for x, n in mut_sites[nm] if n.id in r and n is not node]
@@ -1428,7 +2396,8 @@ def _r35_function(ctx: Ctx, fi: FuncInfo) -> tuple[int, int]:
             ctx.ob("R3.5", f"list `{nm}` stored into {callee}(...) is not mutated afterwards", False,
                    f"`{norm(x)}` (line {getattr(x, 'lineno', '?')}) mutates the very list object an already built {callee} holds - parts share / lose their weights; path without a fresh rebinding: {cfg.fmt_path(w or [])}",
                    fi, x, f"{nm} stored in {callee} then mutated by {norm(x)}")
-    return len(stores), sum(len(v) for v in mut_sites.values())
+    # (a list that only ever changes by being rebound to a new list has no mutation site: the rebindings count)
+    return len(stores) + len(copies), sum(len(v) for v in mut_sites.values()) + sum(len(v) for v in kills.values())
 
 
 def _r35(ctx: Ctx, funcs: list[FuncInfo], floor: bool = True) -> None:
@@ -1441,16 +2410,20 @@ def _r35(ctx: Ctx, funcs: list[FuncInfo], floor: bool = True) -> None:
         # a part has a list of literal weights and a list of converter weights; how many constructions they are stored
         # by (two today) depends on how the parser is factored, so the floors only exclude "nothing found"
         ctx.floor("R3.5", "lists stored into Weighting / RulePart", ns, 2)
-        ctx.floor("R3.5", "mutation sites of those lists", nm, 1)
+        ctx.floor("R3.5", "sites that change / rebind those lists", nm, 1)
 
 
 def _weighting_builders(ctx: Ctx, module_filter: t.Callable[[str], bool]) -> list[FuncInfo]:
     out = []
     allf = ctx.repo.all_functions()
     # names of helpers that merely build and return such an object: a function calling one of them is a builder too
-    via = {f.node.name for f in allf if _ctor_returned(f.node) is not None}  # type: ignore[attr-defined]
+    # (only a module whose text names one of the classes can construct it)
+    naming = {mn for mn, mod in ctx.repo.modules.items() if any(c in mod.source for c in CTORS)}
+    via = {f.node.name for f in allf if f.module.name in naming and _ctor_built(ctx, f.node)}  # type: ignore[attr-defined]
     for fi in allf:
         if not module_filter(fi.module.name):
+            continue
+        if fi.module.name not in naming and not via:
             continue
         cs = astq.calls(fi.node, nested=False)
         if any(_last(dotted(c.func)) in CTORS for c in cs) or (any(_last(dotted(c.func)) in via for c in cs) and _ctor_sites(ctx, fi)):
